@@ -1,7 +1,33 @@
 import GaeaVerif.Model.IPAllow
+import GaeaVerif.Model.IPAllowReload
+import GaeaVerif.Props.C31
+import GaeaVerif.Gen.Consts
 /-
-  C35 — Only allow-listed client addresses can connect.
-  Theorems about `Model/IPAllow.lean` (tie to /repo: correspondence `gvh run C35`).
+  C35 — Only allow-listed client addresses can connect; a client whose address
+  is in a listed block connects.
+
+  Theorems about `Model/IPAllow.lean` and `Model/IPAllowReload.lean` (tie to
+  /repo: correspondence `gvh run C35`, translator facts `Gen.c35*`).
+
+  Main statements
+    * `allow_iff`: for every address syntax, list of entry texts and client
+      byte string, the namespace is unloadable iff an entry is meaningless;
+      otherwise the client is admitted iff no entry is listed or a listed entry
+      holds it in the literal reading (`uniformMatch`: one 128-bit address
+      space, `a.b.c.d` = `::ffff:a.b.c.d`); never a panic.
+    * `only_listed_clients_connect` / `listed_clients_connect`: both directions
+      at full strength (the converse since the fix: commit of `IPInfo.Match`);
+      `v6_client_not_in_v4_block`: the repair cannot over-allow;
+      `short_ipv6_block_rejects_ipv4_witness`: pinned old behaviour.
+    * entries: `full_prefix_is_single_address`, `prefix_zero_*`,
+      `unparsable_entry_refuses_list`, `no_entry_dropped`,
+      `nonblank_list_never_open`, `leading_zero_octet_rejected`,
+      `zoned_entry_refused`, `entry_hex_case_irrelevant`.
+    * clients: `splitHost_joinHostPort`, `clientOf_tcp`, `conn_port_irrelevant`,
+      `no_address_client_refused` (unix sockets), `onConn_admits_iff`,
+      `unix_client_crashed_pinned_witness`, `mapped_equiv`.
+    * reload: `reload_history_conn`, `unparsable_prepare_changes_nothing`,
+      `commit_puts_prepared_list_in_force`, `conn_during_reload_old_or_new`.
 -/
 namespace GaeaVerif.C35
 open GaeaVerif GaeaVerif.IPAllow
@@ -341,11 +367,11 @@ theorem beq_masked (l n : Nat) (a c : Bytes) (ha : a.length = l) (hc : c.length 
       = (beNat a / 2 ^ (8 * l - n) == beNat c / 2 ^ (8 * l - n)) := by
   rw [Bool.eq_iff_iff]; simp only [beq_iff_eq]; exact masked_eq_iff l n a c ha hc hn
 
-theorem match_block_v4 (addr : Bytes) (n : Nat) (c : Bytes) (ha : addr.length = 4) (hn : n ≤ 32) :
-    (toInfo { addr := addr, pfx := some n }).match c = .ok (familyMatch { addr := addr, pfx := some n } c) := by
+theorem matchPinned_block_v4 (addr : Bytes) (n : Nat) (c : Bytes) (ha : addr.length = 4) (hn : n ≤ 32) :
+    (toInfo { addr := addr, pfx := some n }).matchPinned c = .ok (familyMatch { addr := addr, pfx := some n } c) := by
   have hm : (cidrMaskLoop n 4).length = 4 := cidrMaskLoop_length n 4
   have hX : (andBytes addr (cidrMaskLoop n 4)).length = 4 := by rw [andBytes_length _ _ (by omega)]; exact ha
-  simp only [toInfo, IPInfo.match, as16, ha, if_true, ipMask_v4 addr _ ha hm, Option.getD_some]
+  simp only [toInfo, IPInfo.matchPinned, as16, ha, if_true, ipMask_v4 addr _ ha hm, Option.getD_some]
   rw [contains_of_nnm _ _ _ c (nnm_v4 _ _ hX hm) (by omega)]
   simp only [familyMatch, ha, if_true, hX]
   cases h4 : to4 c with
@@ -358,9 +384,9 @@ theorem match_block_v4 (addr : Bytes) (n : Nat) (c : Bytes) (ha : addr.length = 
     rw [beq_masked 4 n addr c4 ha hc4 (by omega)]
     rfl
 
-theorem match_block_mapped (addr : Bytes) (n : Nat) (c : Bytes) (ha : addr.length = 16)
+theorem matchPinned_block_mapped (addr : Bytes) (n : Nat) (c : Bytes) (ha : addr.length = 16)
     (hp : addr.take 12 = v4InV6Prefix) (hn : n ≤ 128) (h96 : n ≥ 96) :
-    (toInfo { addr := addr, pfx := some n }).match c = .ok (familyMatch { addr := addr, pfx := some n } c) := by
+    (toInfo { addr := addr, pfx := some n }).matchPinned c = .ok (familyMatch { addr := addr, pfx := some n } c) := by
   have hm : (cidrMaskLoop n 16).length = 16 := cidrMaskLoop_length n 16
   have hmask : cidrMaskLoop n 16 = List.replicate 12 0xff ++ cidrMaskLoop (n - 96) 4 :=
     cidrMaskLoop_ge 12 n 4 (by omega)
@@ -383,7 +409,7 @@ theorem match_block_mapped (addr : Bytes) (n : Nat) (c : Bytes) (ha : addr.lengt
   have hd4 : (addr.drop 12).length = 4 := by simp [ha]
   have h16 : ¬ (addr.length = 4) := by omega
   have has16 : as16 addr = addr := by simp [as16, ha]
-  simp only [toInfo, IPInfo.match, has16, ha, ipMask_v6 addr _ ha hm, Option.getD_some, if_true]
+  simp only [toInfo, IPInfo.matchPinned, has16, ha, ipMask_v6 addr _ ha hm, Option.getD_some, if_true]
   rw [contains_of_nnm _ _ _ c (nnm_v6_mapped _ _ hX hm hXt) (by rw [hXd, hmd, andBytes_length _ _ (by omega)]; omega)]
   have hto4 : to4 addr = some (addr.drop 12) := by simp [to4, ha, hp]
   simp only [familyMatch, h16, if_false, hto4, Option.isSome_some, h96, and_self, if_true, hXd, hmd]
@@ -399,9 +425,9 @@ theorem match_block_mapped (addr : Bytes) (n : Nat) (c : Bytes) (ha : addr.lengt
     rw [beq_masked 4 (n - 96) (addr.drop 12) c4 hd4 hc4 (by omega)]
     rfl
 
-theorem match_block_v6 (addr : Bytes) (n : Nat) (c : Bytes) (ha : addr.length = 16)
+theorem matchPinned_block_v6 (addr : Bytes) (n : Nat) (c : Bytes) (ha : addr.length = 16)
     (hn : n ≤ 128) (hv6 : addr.take 12 ≠ v4InV6Prefix ∨ n < 96) :
-    (toInfo { addr := addr, pfx := some n }).match c = .ok (familyMatch { addr := addr, pfx := some n } c) := by
+    (toInfo { addr := addr, pfx := some n }).matchPinned c = .ok (familyMatch { addr := addr, pfx := some n } c) := by
   have hm : (cidrMaskLoop n 16).length = 16 := cidrMaskLoop_length n 16
   have hX : (andBytes addr (cidrMaskLoop n 16)).length = 16 := by rw [andBytes_length _ _ (by omega)]; exact ha
   have hXt : (andBytes addr (cidrMaskLoop n 16)).take 12 ≠ v4InV6Prefix := by
@@ -423,7 +449,7 @@ theorem match_block_v6 (addr : Bytes) (n : Nat) (c : Bytes) (ha : addr.length = 
       rw [this]; exact hp
   have h16 : ¬ (addr.length = 4) := by omega
   have has16 : as16 addr = addr := by simp [as16, ha]
-  simp only [toInfo, IPInfo.match, has16, ha, ipMask_v6 addr _ ha hm, Option.getD_some, if_true]
+  simp only [toInfo, IPInfo.matchPinned, has16, ha, ipMask_v6 addr _ ha hm, Option.getD_some, if_true]
   rw [contains_of_nnm _ _ _ c (nnm_v6_plain _ _ hX hm hXt) (by omega)]
   have hcond : ¬ ((to4 addr).isSome ∧ n ≥ 96) := by
     intro ⟨h1, h2⟩
@@ -464,10 +490,10 @@ theorem split12 (A c : Bytes) (hA : A.length = 16) (hc : c.length = 4) :
     subst h
     simp [v4InV6Prefix]
 
-theorem match_addr (addr c : Bytes) (ha : addr.length = 4 ∨ addr.length = 16) :
-    (toInfo { addr := addr, pfx := none }).match c = .ok (familyMatch { addr := addr, pfx := none } c) := by
+theorem matchPinned_addr (addr c : Bytes) (ha : addr.length = 4 ∨ addr.length = 16) :
+    (toInfo { addr := addr, pfx := none }).matchPinned c = .ok (familyMatch { addr := addr, pfx := none } c) := by
   have hA := as16_len addr ha
-  simp only [toInfo, IPInfo.match, familyMatch, Bool.false_eq_true, if_false]
+  simp only [toInfo, IPInfo.matchPinned, familyMatch, Bool.false_eq_true, if_false]
   congr 1
   unfold ipEqual
   rw [hA]
@@ -483,23 +509,24 @@ theorem match_addr (addr c : Bytes) (ha : addr.length = 4 ∨ addr.length = 16) 
     · have hne : ¬ (16 = c.length) := by omega
       simp [hne, h4, h16]
 
-/-- **`IPInfo.Match` decides `familyMatch`** for every well-formed entry and
-    every client byte string (of any length, nil included), without panic. -/
-theorem match_eq_familyMatch (e : Entry) (c : Bytes) (h : e.WF) :
-    (toInfo e).match c = .ok (familyMatch e c) := by
+/-- **The pinned `IPInfo.Match` (`Contains` alone) decides `familyMatch`** for
+    every well-formed entry and every client byte string (of any length, nil
+    included), without panic. -/
+theorem matchPinned_eq_familyMatch (e : Entry) (c : Bytes) (h : e.WF) :
+    (toInfo e).matchPinned c = .ok (familyMatch e c) := by
   obtain ⟨addr, pfx⟩ := e
   obtain ⟨hlen, hpfx⟩ := h
   simp only at hlen hpfx
   cases pfx with
-  | none => exact match_addr addr c hlen
+  | none => exact matchPinned_addr addr c hlen
   | some n =>
     have hn := hpfx n rfl
     cases hlen with
-    | inl h4 => exact match_block_v4 addr n c h4 (by omega)
+    | inl h4 => exact matchPinned_block_v4 addr n c h4 (by omega)
     | inr h16 =>
       by_cases hm : addr.take 12 = v4InV6Prefix ∧ n ≥ 96
-      · exact match_block_mapped addr n c h16 hm.1 (by omega) hm.2
-      · apply match_block_v6 addr n c h16 (by omega)
+      · exact matchPinned_block_mapped addr n c h16 hm.1 (by omega) hm.2
+      · apply matchPinned_block_v6 addr n c h16 (by omega)
         by_cases hp : addr.take 12 = v4InV6Prefix
         · right; have : ¬ (n ≥ 96) := fun h => hm ⟨hp, h⟩; omega
         · left; exact hp
@@ -656,86 +683,6 @@ theorem parseAllowIps_eq (pa : Bytes → Option Addr) (hpa : PAwf pa) (l : List 
         | none => simp
         | some es => simp
 
-theorem matchAny_eq (c : Bytes) : ∀ (es : List Entry), (∀ e ∈ es, e.WF) →
-    matchAny (es.map toInfo) c = .ok (es.any (fun e => familyMatch e c)) := by
-  intro es
-  induction es with
-  | nil => intro _; simp [matchAny]
-  | cons e es ih =>
-    intro h
-    have he := h e (by simp)
-    have hes := ih (fun x hx => h x (by simp [hx]))
-    simp only [List.map_cons, matchAny, match_eq_familyMatch e c he, List.any_cons]
-    cases hf : familyMatch e c with
-    | true => simp
-    | false => simp [hes]
-
-/-- **C35, the decision taken by the proxy.**  For every address syntax, every
-    list of entry texts and every client byte string (nil and odd lengths
-    included): the namespace is unloadable iff some entry is meaningless;
-    otherwise the client is admitted iff no entry is listed or one listed entry
-    matches it (`familyMatch`).  The check never panics. -/
-theorem allow_iff (pa : Bytes → Option Addr) (hpa : PAwf pa) (l : List Bytes) (c : Bytes) :
-    (parseAllowIps pa l >>= fun infos => isClientIPAllowed infos c)
-      = match listed pa l with
-        | none => .fail
-        | some es => .ok (es.isEmpty || es.any (fun e => familyMatch e c)) := by
-  rw [parseAllowIps_eq pa hpa l]
-  cases hl : listed pa l with
-  | none => rfl
-  | some es =>
-    simp only [R.bind_ok, isClientIPAllowed]
-    cases es with
-    | nil => simp
-    | cons e es' =>
-      have hw := listed_wf pa hpa l _ hl
-      rw [if_neg (by simp), matchAny_eq c _ hw]
-      simp
-
-/-- Prop form of `allow_iff` for a loadable list. -/
-theorem allowed_iff (pa : Bytes → Option Addr) (hpa : PAwf pa) (l : List Bytes) (es : List Entry) (c : Bytes)
-    (hl : listed pa l = some es) :
-    (parseAllowIps pa l >>= fun infos => isClientIPAllowed infos c) = .ok true
-      ↔ (es = [] ∨ ∃ e ∈ es, familyMatch e c = true) := by
-  rw [allow_iff pa hpa l c, hl]
-  simp only [R.ok.injEq, Bool.or_eq_true, List.isEmpty_iff, List.any_eq_true]
-
-/-! ### IPv4 and IPv4-mapped presentations of a client -/
-
-theorem to4_mapped (a : Bytes) (h : a.length = 4) : to4 (v4InV6Prefix ++ a) = some a := by
-  simp [to4, h, v4InV6Prefix]
-
-theorem ipEqual_mapped (ip a : Bytes) (h : a.length = 4) :
-    ipEqual ip (v4InV6Prefix ++ a) = ipEqual ip a := by
-  have h16 : (v4InV6Prefix ++ a).length = 16 := by simp [v4InV6Prefix, h]
-  unfold ipEqual
-  rw [h16, h]
-  by_cases h1 : ip.length = 16
-  · have := split12 ip a h1 h
-    simp only [h1, if_true, Nat.reduceEqDiff, if_false, false_and, and_self, this]
-  · by_cases h2 : ip.length = 4
-    · simp [h2, v4InV6Prefix, h]
-    · simp [h1, h2]
-
-/-- **IPv4 = IPv4-mapped.**  Whatever the allow-list holds (even `IPInfo`s that
-    no parser would produce), an IPv4 client is treated identically whether
-    presented as 4 bytes or as the 16-byte IPv4-mapped address. -/
-theorem mapped_equiv (infos : List IPInfo) (a : Bytes) (h : a.length = 4) :
-    isClientIPAllowed infos (v4InV6Prefix ++ a) = isClientIPAllowed infos a := by
-  unfold isClientIPAllowed
-  split
-  · rfl
-  · have hm : ∀ i : IPInfo, i.match (v4InV6Prefix ++ a) = i.match a := by
-      intro i
-      unfold IPInfo.match contains
-      rw [to4_mapped a h, to4_len4 a h, ipEqual_mapped _ _ h]
-      rfl
-    rename_i hne
-    clear hne
-    induction infos with
-    | nil => rfl
-    | cons i is ih => simp only [matchAny, hm, ih]
-
 /-! ### the literal reading: one 128-bit address space -/
 
 theorem beNat_append (p x : Bytes) : beNat (p ++ x) = beNat p * 256 ^ x.length + beNat x := by
@@ -745,9 +692,27 @@ theorem beNat_append (p x : Bytes) : beNat (p ++ x) = beNat p * 256 ^ x.length +
     simp only [List.cons_append, beNat, List.length_append, ih, Nat.pow_add, Nat.add_mul, Nat.mul_assoc,
       Nat.add_assoc]
 
-/-- Network numbers of an IPv4 address and of its IPv4-mapped form. -/
-theorem netNum_mapped (x : Bytes) (k : Nat) (hx : x.length = 4) (hk : k ≤ 32) :
-    netNum 128 (k + 96) (v4InV6Prefix ++ x) = beNat v4InV6Prefix * 2 ^ k + netNum 32 k x := by
+theorem beNat_inj : ∀ (a c : Bytes), a.length = c.length → beNat a = beNat c → a = c := by
+  intro a
+  induction a with
+  | nil => intro c h _; exact (List.length_eq_zero_iff.mp h.symm).symm
+  | cons x xs ih =>
+    intro c h he
+    match c, h with
+    | y :: ys, h =>
+      simp only [List.length_cons, Nat.add_right_cancel_iff] at h
+      simp only [beNat] at he
+      rw [h] at he
+      have hx := beNat_lt xs
+      have hy := beNat_lt ys
+      rw [h] at hx
+      obtain ⟨h1, h2⟩ := (digit_eq (256 ^ ys.length) x.toNat y.toNat (beNat xs) (beNat ys) hx hy).mp he
+      rw [UInt8.toNat_inj.mp h1, ih ys h h2]
+
+/-- Network number of a 16-byte address under a prefix of 96 bits or more: the
+    first 12 bytes as they are, then the network number of the last four. -/
+theorem netNum_split (p x : Bytes) (k : Nat) (hx : x.length = 4) (hk : k ≤ 32) :
+    netNum 128 (k + 96) (p ++ x) = beNat p * 2 ^ k + netNum 32 k x := by
   unfold netNum
   rw [beNat_append, hx]
   have e : 128 - (k + 96) = 32 - k := by omega
@@ -759,6 +724,38 @@ theorem netNum_mapped (x : Bytes) (k : Nat) (hx : x.length = 4) (hk : k ≤ 32) 
     have : k + (32 - k) = 32 := by omega
     rw [this]
   rw [h256, ← Nat.mul_assoc, Nat.add_comm, Nat.add_mul_div_right _ _ hDpos, Nat.add_comm]
+
+theorem netNum32_lt (x : Bytes) (k : Nat) (hx : x.length = 4) (hk : k ≤ 32) : netNum 32 k x < 2 ^ k := by
+  unfold netNum
+  have h := beNat_lt x
+  rw [hx] at h
+  have h2 : (256 : Nat) ^ 4 = 2 ^ k * 2 ^ (32 - k) := by
+    rw [← Nat.pow_add]
+    have : k + (32 - k) = 32 := by omega
+    rw [this]
+  rw [h2] at h
+  exact Nat.div_lt_of_lt_mul (by rw [Nat.mul_comm]; exact h)
+
+/-- **Families are kept apart by the literal reading itself**: two 16-byte
+    addresses with equal network numbers under a prefix of 96 bits or more have
+    the same first 12 bytes — an address outside `::ffff:0:0/96` is in no IPv4 block. -/
+theorem netNum_ge96_prefix (a c : Bytes) (n : Nat) (ha : a.length = 16) (hc : c.length = 16)
+    (hn : 96 ≤ n) (hn' : n ≤ 128) (h : netNum 128 n a = netNum 128 n c) : a.take 12 = c.take 12 := by
+  have ea : a = a.take 12 ++ a.drop 12 := (List.take_append_drop 12 a).symm
+  have ec : c = c.take 12 ++ c.drop 12 := (List.take_append_drop 12 c).symm
+  have hda : (a.drop 12).length = 4 := by simp [ha]
+  have hdc : (c.drop 12).length = 4 := by simp [hc]
+  have e96 : n = (n - 96) + 96 := by omega
+  rw [ea, ec, e96, netNum_split _ _ (n - 96) hda (by omega), netNum_split _ _ (n - 96) hdc (by omega)] at h
+  have h1 := netNum32_lt (a.drop 12) (n - 96) hda (by omega)
+  have h2 := netNum32_lt (c.drop 12) (n - 96) hdc (by omega)
+  obtain ⟨h3, _⟩ := (digit_eq (2 ^ (n - 96)) _ _ _ _ h1 h2).mp h
+  exact beNat_inj _ _ (by simp [ha, hc]) h3
+
+/-- Network numbers of an IPv4 address and of its IPv4-mapped form. -/
+theorem netNum_mapped (x : Bytes) (k : Nat) (hx : x.length = 4) (hk : k ≤ 32) :
+    netNum 128 (k + 96) (v4InV6Prefix ++ x) = beNat v4InV6Prefix * 2 ^ k + netNum 32 k x :=
+  netNum_split v4InV6Prefix x k hx hk
 
 theorem as16_of_to4 (c c4 : Bytes) (h : to4 c = some c4) :
     as16 c = v4InV6Prefix ++ c4 ∧ (c.length = 4 ∨ c.length = 16) := by
@@ -817,7 +814,7 @@ theorem familyMatch_eq_uniformMatch (e : Entry) (c : Bytes) (h : e.WF) (hs : sam
           cases hcl with
           | inl h => simp [h]
           | inr h => simp [h]
-        rw [hl, hc16, ha16, netNum_mapped addr n h4 (by omega), netNum_mapped c4 n hc4 (by omega)]
+        rw [hl, hc16, ha16, netNum_split _ addr n h4 (by omega), netNum_split _ c4 n hc4 (by omega)]
         rw [Bool.true_and, Bool.eq_iff_iff]
         simp only [beq_iff_eq, Nat.add_left_cancel_iff]
     | inr h16 =>
@@ -846,7 +843,7 @@ theorem familyMatch_eq_uniformMatch (e : Entry) (c : Bytes) (h : e.WF) (hs : sam
           have e96 : n = (n - 96) + 96 := by omega
           rw [hl, hc16]
           conv => rhs; rw [haddr, e96]
-          rw [netNum_mapped _ (n - 96) hd4 (by omega), netNum_mapped c4 (n - 96) hc4 (by omega)]
+          rw [netNum_split _ _ (n - 96) hd4 (by omega), netNum_split _ c4 (n - 96) hc4 (by omega)]
           rw [Bool.true_and, Bool.eq_iff_iff]
           simp only [beq_iff_eq, Nat.add_left_cancel_iff]
       · rw [if_neg hm]
@@ -905,6 +902,255 @@ theorem familyMatch_imp_uniformMatch (e : Entry) (c : Bytes) (h : e.WF)
             · left; simpa using h1
           simp [h4', hv, hcn]
 
+/-! ### the repaired `Match`: one address space -/
+
+/-- `containsMapped` on the `IPInfo` of a well-formed block: only a block
+    written in IPv6 form is looked at, only for an IPv4 / IPv4-mapped client,
+    and then the 128-bit network numbers are compared. -/
+theorem containsMapped_block (addr : Bytes) (n : Nat) (c : Bytes)
+    (hlen : addr.length = 4 ∨ addr.length = 16) (hn : n ≤ 8 * addr.length) :
+    (toInfo { addr := addr, pfx := some n }).containsMapped c =
+      .ok (match to4 c with
+           | none => false
+           | some c4 => addr.length == 16 && netNum 128 n addr == netNum 128 n (v4InV6Prefix ++ c4)) := by
+  unfold IPInfo.containsMapped
+  cases hc : to4 c with
+  | none => rfl
+  | some c4 =>
+    have hc4 := to4_some_len c c4 hc
+    cases hlen with
+    | inl h4 =>
+      have hm : (cidrMaskLoop n 4).length = 4 := cidrMaskLoop_length n 4
+      have hX : (andBytes addr (cidrMaskLoop n 4)).length = 4 := by rw [andBytes_length _ _ (by omega)]; exact h4
+      simp [toInfo, as16, h4, ipMask_v4 addr _ h4 hm, hX]
+    | inr h16 =>
+      have hm : (cidrMaskLoop n 16).length = 16 := cidrMaskLoop_length n 16
+      have hX : (andBytes addr (cidrMaskLoop n 16)).length = 16 := by
+        rw [andBytes_length _ _ (by omega)]; exact h16
+      have has16 : as16 addr = addr := by simp [as16, h16]
+      have hp : (v4InV6Prefix ++ c4).length = 16 := by simp [v4InV6Prefix, hc4]
+      simp only [toInfo, has16, h16, ipMask_v6 addr _ h16 hm, Option.getD_some, hX, hm, ne_eq,
+        not_true_eq_false, or_self, if_false, beq_self_eq_true, Bool.true_and]
+      rw [containsLoop_eq _ _ _ (by omega) (by omega), andBytes_idem,
+        beq_masked 16 n addr _ h16 hp (by omega)]
+      rfl
+
+theorem v4Block_take12 (addr : Bytes) (n : Nat) (h16 : addr.length = 16)
+    (hv : v4Block { addr := addr, pfx := some n } = true) : addr.take 12 = v4InV6Prefix ∧ n ≥ 96 := by
+  simp only [v4Block, h16, Nat.reduceEqDiff, Bool.false_or, Bool.and_eq_true, decide_eq_true_eq,
+    show ((16 : Nat) == 4) = false from rfl] at hv
+  refine ⟨?_, hv.2⟩
+  have := hv.1
+  unfold to4 at this
+  simp [h16] at this
+  exact this
+
+/-- An IPv6 client (16 bytes, not IPv4-mapped) lies in no IPv4 block, by the
+    literal reading itself. -/
+theorem uniformMatch_v4Block_v6client (e : Entry) (n : Nat) (c : Bytes) (h : e.WF) (hp : e.pfx = some n)
+    (hv : v4Block e = true) (hc : to4 c = none) : uniformMatch e c = false := by
+  obtain ⟨addr, pfx⟩ := e
+  simp only at hp
+  subst hp
+  obtain ⟨hlen, hpfx⟩ := h
+  simp only at hlen hpfx
+  have hn := hpfx n rfl
+  have hc4 : c.length ≠ 4 := to4_none_len c hc
+  by_cases hc16 : c.length = 16
+  · have hcp : c.take 12 ≠ v4InV6Prefix := by
+      intro hh
+      unfold to4 at hc
+      simp [hc16, hh] at hc
+    have hasc : as16 c = c := by simp [as16, hc4]
+    simp only [uniformMatch, hasc, Bool.and_eq_false_iff]
+    right
+    apply beq_false_of_ne
+    intro heq
+    cases hlen with
+    | inl h4 =>
+      have ha16 : as16 addr = v4InV6Prefix ++ addr := by simp [as16, h4]
+      simp only [h4, if_true, ha16] at heq
+      have := netNum_ge96_prefix (v4InV6Prefix ++ addr) c (n + 96) (by simp [v4InV6Prefix, h4]) hc16
+        (by omega) (by omega) heq
+      apply hcp
+      rw [← this]
+      simp [v4InV6Prefix]
+    | inr h16 =>
+      obtain ⟨hap, h96⟩ := v4Block_take12 addr n h16 hv
+      have ha16 : as16 addr = addr := by simp [as16, h16]
+      have hne : ¬ (addr.length = 4) := by omega
+      simp only [hne, if_false, ha16] at heq
+      have := netNum_ge96_prefix addr c n h16 hc16 h96 (by omega) heq
+      exact hcp (by rw [← this]; exact hap)
+  · have h1 : (c.length == 4) = false := beq_false_of_ne hc4
+    have h2 : (c.length == 16) = false := beq_false_of_ne hc16
+    simp [uniformMatch, h1, h2]
+
+theorem familyMatch_v4Block_v6client (e : Entry) (n : Nat) (c : Bytes) (hp : e.pfx = some n)
+    (hv : v4Block e = true) (hc : to4 c = none) : familyMatch e c = false := by
+  obtain ⟨addr, pfx⟩ := e
+  simp only at hp
+  subst hp
+  simp only [familyMatch, hc]
+  split
+  · rfl
+  · rename_i h4
+    split
+    · rfl
+    · rename_i hm
+      exfalso
+      apply hm
+      simp only [v4Block, Bool.or_eq_true, beq_iff_eq, Bool.and_eq_true, decide_eq_true_eq] at hv
+      cases hv with
+      | inl h => exact absurd h h4
+      | inr h => exact h
+
+/-- **The repaired `IPInfo.Match` decides the literal reading** (`uniformMatch`:
+    one 128-bit address space, `a.b.c.d` = `::ffff:a.b.c.d`) for every
+    well-formed entry and every client byte string, without panic. -/
+theorem match_eq_uniformMatch (e : Entry) (c : Bytes) (h : e.WF) :
+    (toInfo e).match c = .ok (uniformMatch e c) := by
+  have hp := matchPinned_eq_familyMatch e c h
+  obtain ⟨addr, pfx⟩ := e
+  cases pfx with
+  | none =>
+    have : (toInfo { addr := addr, pfx := none }).match c = (toInfo { addr := addr, pfx := none }).matchPinned c := by
+      simp [IPInfo.match, IPInfo.matchPinned, toInfo]
+    rw [this, hp, familyMatch_eq_uniformMatch _ c h (Or.inl rfl)]
+  | some n =>
+    have hn := h.2 n rfl
+    have hlen := h.1
+    simp only at hn hlen
+    have hc : contains (toInfo { addr := addr, pfx := some n }).ipNet c
+        = .ok (familyMatch { addr := addr, pfx := some n } c) := by
+      rw [← hp]; simp [IPInfo.matchPinned, toInfo]
+    have hm : (toInfo { addr := addr, pfx := some n }).match c
+        = match contains (toInfo { addr := addr, pfx := some n }).ipNet c with
+          | .ok true => .ok true
+          | .ok false => (toInfo { addr := addr, pfx := some n }).containsMapped c
+          | .fail => .fail
+          | .panic => .panic := by
+      unfold IPInfo.match
+      rw [if_pos (show (toInfo { addr := addr, pfx := some n }).isIPNet = true from rfl)]
+      rfl
+    rw [hm, hc, containsMapped_block addr n c hlen hn]
+    cases h4 : to4 c with
+    | none =>
+      have : familyMatch { addr := addr, pfx := some n } c = uniformMatch { addr := addr, pfx := some n } c := by
+        by_cases hv : v4Block { addr := addr, pfx := some n } = true
+        · rw [familyMatch_v4Block_v6client _ n c rfl hv h4, uniformMatch_v4Block_v6client _ n c h rfl hv h4]
+        · exact familyMatch_eq_uniformMatch _ c h (Or.inr (by simp [h4]; simpa using hv))
+      rw [← this]
+      cases familyMatch { addr := addr, pfx := some n } c <;> rfl
+    | some c4 =>
+      obtain ⟨hc16, hcl⟩ := as16_of_to4 c c4 h4
+      cases hlen with
+      | inl hl4 =>
+        have hv : v4Block { addr := addr, pfx := some n } = (to4 c).isSome := by simp [v4Block, hl4, h4]
+        rw [← familyMatch_eq_uniformMatch _ c h (Or.inr hv)]
+        have : (addr.length == 16) = false := by simp [hl4]
+        simp only [this, Bool.false_and]
+        cases familyMatch { addr := addr, pfx := some n } c <;> rfl
+      | inr hl16 =>
+        have hl : (c.length == 4 || c.length == 16) = true := by
+          cases hcl with
+          | inl h => simp [h]
+          | inr h => simp [h]
+        have ha16 : as16 addr = addr := by simp [as16, hl16]
+        have hne : ¬ (addr.length = 4) := by omega
+        have hu : uniformMatch { addr := addr, pfx := some n } c
+            = (netNum 128 n addr == netNum 128 n (v4InV6Prefix ++ c4)) := by
+          simp only [uniformMatch, hl, Bool.true_and, hne, if_false, ha16, hc16]
+        have himp := familyMatch_imp_uniformMatch { addr := addr, pfx := some n } c h
+        rw [hu] at himp ⊢
+        simp only [hl16, beq_self_eq_true, Bool.true_and]
+        cases hf : familyMatch { addr := addr, pfx := some n } c with
+        | false => rfl
+        | true => simp only; rw [himp hf]
+
+/-! ### the decision of the proxy -/
+
+theorem matchAny_eq (c : Bytes) : ∀ (es : List Entry), (∀ e ∈ es, e.WF) →
+    matchAny (es.map toInfo) c = .ok (es.any (fun e => uniformMatch e c)) := by
+  intro es
+  induction es with
+  | nil => intro _; simp [matchAny]
+  | cons e es ih =>
+    intro h
+    have he := h e (by simp)
+    have hes := ih (fun x hx => h x (by simp [hx]))
+    simp only [List.map_cons, matchAny, match_eq_uniformMatch e c he, List.any_cons]
+    cases hf : uniformMatch e c with
+    | true => simp
+    | false => simp [hes]
+
+/-- **C35, the decision taken by the proxy.**  For every address syntax, every
+    list of entry texts and every client byte string (nil and odd lengths
+    included): the namespace is unloadable iff some entry is meaningless;
+    otherwise the client is admitted iff no entry is listed or one listed entry
+    holds it in the literal reading (`uniformMatch`: one 128-bit address space,
+    `a.b.c.d` = `::ffff:a.b.c.d`).  The check never panics. -/
+theorem allow_iff (pa : Bytes → Option Addr) (hpa : PAwf pa) (l : List Bytes) (c : Bytes) :
+    (parseAllowIps pa l >>= fun infos => isClientIPAllowed infos c)
+      = match listed pa l with
+        | none => .fail
+        | some es => .ok (es.isEmpty || es.any (fun e => uniformMatch e c)) := by
+  rw [parseAllowIps_eq pa hpa l]
+  cases hl : listed pa l with
+  | none => rfl
+  | some es =>
+    simp only [R.bind_ok, isClientIPAllowed]
+    cases es with
+    | nil => simp
+    | cons e es' =>
+      have hw := listed_wf pa hpa l _ hl
+      rw [if_neg (by simp), matchAny_eq c _ hw]
+      simp
+
+/-- Prop form of `allow_iff` for a loadable list. -/
+theorem allowed_iff (pa : Bytes → Option Addr) (hpa : PAwf pa) (l : List Bytes) (es : List Entry) (c : Bytes)
+    (hl : listed pa l = some es) :
+    (parseAllowIps pa l >>= fun infos => isClientIPAllowed infos c) = .ok true
+      ↔ (es = [] ∨ ∃ e ∈ es, uniformMatch e c = true) := by
+  rw [allow_iff pa hpa l c, hl]
+  simp only [R.ok.injEq, Bool.or_eq_true, List.isEmpty_iff, List.any_eq_true]
+
+/-! ### IPv4 and IPv4-mapped presentations of a client -/
+
+theorem to4_mapped (a : Bytes) (h : a.length = 4) : to4 (v4InV6Prefix ++ a) = some a := by
+  simp [to4, h, v4InV6Prefix]
+
+theorem ipEqual_mapped (ip a : Bytes) (h : a.length = 4) :
+    ipEqual ip (v4InV6Prefix ++ a) = ipEqual ip a := by
+  have h16 : (v4InV6Prefix ++ a).length = 16 := by simp [v4InV6Prefix, h]
+  unfold ipEqual
+  rw [h16, h]
+  by_cases h1 : ip.length = 16
+  · have := split12 ip a h1 h
+    simp only [h1, if_true, Nat.reduceEqDiff, if_false, false_and, and_self, this]
+  · by_cases h2 : ip.length = 4
+    · simp [h2, v4InV6Prefix, h]
+    · simp [h1, h2]
+
+/-- **IPv4 = IPv4-mapped.**  Whatever the allow-list holds (even `IPInfo`s that
+    no parser would produce), an IPv4 client is treated identically whether
+    presented as 4 bytes or as the 16-byte IPv4-mapped address. -/
+theorem mapped_equiv (infos : List IPInfo) (a : Bytes) (h : a.length = 4) :
+    isClientIPAllowed infos (v4InV6Prefix ++ a) = isClientIPAllowed infos a := by
+  unfold isClientIPAllowed
+  split
+  · rfl
+  · have hm : ∀ i : IPInfo, i.match (v4InV6Prefix ++ a) = i.match a := by
+      intro i
+      unfold IPInfo.match IPInfo.containsMapped contains
+      rw [to4_mapped a h, to4_len4 a h, ipEqual_mapped _ _ h]
+      rfl
+    rename_i hne
+    clear hne
+    induction infos with
+    | nil => rfl
+    | cons i is ih => simp only [matchAny, hm, ih]
+
 /-- **Only allow-listed client addresses can connect** (literal reading, full
     strength): if the proxy admits a client then the list is loadable and
     either holds no entry or holds an entry whose address equals the client's
@@ -912,34 +1158,84 @@ theorem familyMatch_imp_uniformMatch (e : Entry) (c : Bytes) (h : e.WF)
 theorem only_listed_clients_connect (pa : Bytes → Option Addr) (hpa : PAwf pa) (l : List Bytes) (c : Bytes)
     (h : (parseAllowIps pa l >>= fun infos => isClientIPAllowed infos c) = .ok true) :
     ∃ es, listed pa l = some es ∧ (es = [] ∨ ∃ e ∈ es, uniformMatch e c = true) := by
-  rw [allow_iff pa hpa l c] at h
   cases hl : listed pa l with
-  | none => rw [hl] at h; simp at h
-  | some es =>
-    refine ⟨es, rfl, ?_⟩
-    have := (allowed_iff pa hpa l es c hl).mp (by rw [allow_iff pa hpa l c]; exact h)
-    cases this with
-    | inl h0 => exact Or.inl h0
-    | inr h1 =>
-      obtain ⟨e, he, hf⟩ := h1
-      exact Or.inr ⟨e, he, familyMatch_imp_uniformMatch e c (listed_wf pa hpa l es hl e he) hf⟩
+  | none => rw [allow_iff pa hpa l c, hl] at h; simp at h
+  | some es => exact ⟨es, rfl, (allowed_iff pa hpa l es c hl).mp h⟩
 
-/-- C35, the converse direction.  Full statement (false of the code, see
-    `short_ipv6_block_rejects_ipv4_witness`):
-      listed pa l = some es → (es = [] ∨ ∃ e ∈ es, uniformMatch e c) → admitted.
-    Proved with the hypothesis that the matching entry and the client are of
-    one family (`sameFamily`), which only excludes an IPv4 client against a
-    block written in IPv6 form with fewer than 96 bits. -/
-theorem listed_clients_connect_partial (pa : Bytes → Option Addr) (hpa : PAwf pa) (l : List Bytes)
+/-- **A client whose address is in a listed block connects** (the converse, full
+    strength since the fix: commit that compares an IPv4 client with a block
+    written in IPv6 form in the 16-byte form): for a loadable list, a client
+    that equals a listed address or lies in a listed block — in the literal
+    reading, whatever the families of entry and client — is admitted. -/
+theorem listed_clients_connect (pa : Bytes → Option Addr) (hpa : PAwf pa) (l : List Bytes)
+    (es : List Entry) (c : Bytes) (hl : listed pa l = some es)
+    (h : es = [] ∨ ∃ e ∈ es, uniformMatch e c = true) :
+    (parseAllowIps pa l >>= fun infos => isClientIPAllowed infos c) = .ok true :=
+  (allowed_iff pa hpa l es c hl).mpr h
+
+/-- The statement proved before the fix (entry and client of one family), now a
+    corollary of `listed_clients_connect`. -/
+theorem listed_clients_connect_same_family (pa : Bytes → Option Addr) (hpa : PAwf pa) (l : List Bytes)
     (es : List Entry) (c : Bytes) (hl : listed pa l = some es)
     (h : es = [] ∨ ∃ e ∈ es, uniformMatch e c = true ∧ sameFamily e c) :
     (parseAllowIps pa l >>= fun infos => isClientIPAllowed infos c) = .ok true := by
-  rw [allowed_iff pa hpa l es c hl]
+  apply listed_clients_connect pa hpa l es c hl
   cases h with
   | inl h0 => exact Or.inl h0
   | inr h1 =>
-    obtain ⟨e, he, hu, hs⟩ := h1
-    exact Or.inr ⟨e, he, by rw [familyMatch_eq_uniformMatch e c (listed_wf pa hpa l es hl e he) hs]; exact hu⟩
+    obtain ⟨e, he, hu, _⟩ := h1
+    exact Or.inr ⟨e, he, hu⟩
+
+/-- **An IPv6 client never matches an IPv4 block** (the repair cannot
+    over-allow): a 16-byte client outside `::ffff:0:0/96` is admitted only by
+    an entry written in IPv6 form that is not an IPv4-mapped block of 96 bits
+    or more (or by an empty list). -/
+theorem v6_client_not_in_v4_block (pa : Bytes → Option Addr) (hpa : PAwf pa) (l : List Bytes)
+    (es : List Entry) (c : Bytes) (hl : listed pa l = some es) (hne : es ≠ []) (hc : to4 c = none)
+    (hv : ∀ e ∈ es, v4Block e = true) :
+    (parseAllowIps pa l >>= fun infos => isClientIPAllowed infos c) = .ok false := by
+  rw [allow_iff pa hpa l c, hl]
+  have hw := listed_wf pa hpa l es hl
+  have : es.any (fun e => uniformMatch e c) = false := by
+    rw [List.any_eq_false]
+    intro e he
+    cases hp : e.pfx with
+    | none =>
+      -- a single address: IPv4 or IPv4-mapped by `v4Block`, the client is neither
+      have hv' := hv e he
+      obtain ⟨addr, pfx⟩ := e
+      simp only at hp
+      subst hp
+      have hwf := hw _ he
+      have hlen := hwf.1
+      simp only at hlen
+      simp only [uniformMatch, Bool.and_eq_true, beq_iff_eq, not_and]
+      intro hcl heq
+      have hc4 : c.length ≠ 4 := to4_none_len c hc
+      have hc16 : c.length = 16 := by
+        simp only [Bool.or_eq_true, beq_iff_eq] at hcl
+        omega
+      have hasc : as16 c = c := by simp [as16, hc4]
+      rw [hasc] at heq
+      have hcp : c.take 12 = v4InV6Prefix := by
+        rw [← heq]
+        cases hlen with
+        | inl h4 => simp [as16, h4, v4InV6Prefix]
+        | inr h16 =>
+          have hne4 : ¬ addr.length = 4 := by omega
+          simp only [v4Block, h16, Bool.and_true, show ((16 : Nat) == 4) = false from rfl, Bool.false_or] at hv'
+          simp only [as16, hne4, if_false]
+          unfold to4 at hv'
+          simp [h16] at hv'
+          exact hv'
+      unfold to4 at hc
+      simp [hc16, hcp] at hc
+    | some n =>
+      have := uniformMatch_v4Block_v6client e n c (hw e he) hp (hv e he) hc
+      simp [this]
+  cases es with
+  | nil => exact absurd rfl hne
+  | cons e es' => simp only [List.isEmpty_cons, Bool.false_or, this]
 
 /-! ### the reference address syntax, witnesses and examples -/
 
@@ -978,23 +1274,34 @@ theorem allow_iff_netip (l : List Bytes) (c : Bytes) :
     (parseAllowIps netipParseAddr l >>= fun infos => isClientIPAllowed infos c)
       = match listed netipParseAddr l with
         | none => .fail
-        | some es => .ok (es.isEmpty || es.any (fun e => familyMatch e c)) :=
+        | some es => .ok (es.isEmpty || es.any (fun e => uniformMatch e c)) :=
   allow_iff netipParseAddr netipParseAddr_wf l c
 
 /-- The text `::ffff:1.2.3.4/0`. -/
 def wBlock : Bytes :=
   [0x3a, 0x3a, 0x66, 0x66, 0x66, 0x66, 0x3a, 0x31, 0x2e, 0x32, 0x2e, 0x33, 0x2e, 0x34, 0x2f, 0x30]
 
+/-- `Namespace.IsClientIPAllowed` with the `Match` of the tree before the fix:
+    commit (`Contains` alone), for the pinned witness. -/
+def isClientIPAllowedPinned (allowips : List IPInfo) (clientIP : Bytes) : R Bool :=
+  if allowips.length = 0 then .ok true
+  else .ok (allowips.any fun i => i.matchPinned clientIP == .ok true)
+
 set_option maxRecDepth 100000 in
-/-- **Witness (open finding).**  The allow-list `["::ffff:1.2.3.4/0"]` denotes a
-    block that contains every address, 1.2.3.4 included (`uniformMatch`), yet the
-    proxy refuses the client 1.2.3.4, in either presentation. -/
+/-- **Pinned witness of the repaired finding** `ipv4-client-in-short-ipv6-block-rejected`.
+    The allow-list `["::ffff:1.2.3.4/0"]` denotes a block that contains every
+    address, 1.2.3.4 included (`uniformMatch`).  Before the fix: commit the proxy
+    refused the client 1.2.3.4 in either presentation (`Contains` compares
+    addresses of one family only); the repaired `Match` admits it. -/
 theorem short_ipv6_block_rejects_ipv4_witness :
     listed netipParseAddr [wBlock] = some [{ addr := v4InV6Prefix ++ [1, 2, 3, 4], pfx := some 0 }]
     ∧ uniformMatch { addr := v4InV6Prefix ++ [1, 2, 3, 4], pfx := some 0 } [1, 2, 3, 4] = true
-    ∧ (parseAllowIps netipParseAddr [wBlock] >>= fun infos => isClientIPAllowed infos [1, 2, 3, 4]) = .ok false
+    ∧ (parseAllowIps netipParseAddr [wBlock] >>= fun infos => isClientIPAllowedPinned infos [1, 2, 3, 4]) = .ok false
     ∧ (parseAllowIps netipParseAddr [wBlock] >>= fun infos =>
-        isClientIPAllowed infos (v4InV6Prefix ++ [1, 2, 3, 4])) = .ok false := by
+        isClientIPAllowedPinned infos (v4InV6Prefix ++ [1, 2, 3, 4])) = .ok false
+    ∧ (parseAllowIps netipParseAddr [wBlock] >>= fun infos => isClientIPAllowed infos [1, 2, 3, 4]) = .ok true
+    ∧ (parseAllowIps netipParseAddr [wBlock] >>= fun infos =>
+        isClientIPAllowed infos (v4InV6Prefix ++ [1, 2, 3, 4])) = .ok true := by
   decide
 
 /-- The texts ` 10.1.2.3/8`, `` (blank), `::1`, `::ffff:192.168.0.0/112`. -/
@@ -1026,5 +1333,1147 @@ example :
 /-- Non-vacuity of the prefix lemma: `/20` on 4 bytes. -/
 example : andBytes [10, 1, 0x2f, 3] (cidrMaskLoop 20 4) = andBytes [10, 1, 0x20, 0xff] (cidrMaskLoop 20 4)
     ∧ beNat [10, 1, 0x2f, 3] / 2 ^ (8 * 4 - 20) = beNat [10, 1, 0x20, 0xff] / 2 ^ (8 * 4 - 20) := by decide
+
+/-! ### entries: single addresses as blocks, prefix 0, unparsable entries -/
+
+/-- **`A/32` and `A/128` are the single address `A`.** -/
+theorem full_prefix_is_single_address (e : Entry) (c : Bytes) (h : e.WF)
+    (hp : e.pfx = some (8 * e.addr.length)) :
+    uniformMatch e c = uniformMatch { e with pfx := none } c := by
+  obtain ⟨addr, pfx⟩ := e
+  simp only at hp
+  subst hp
+  have hlen := h.1
+  simp only at hlen
+  have ha16 := as16_len addr hlen
+  simp only [uniformMatch]
+  by_cases hc : c.length = 4 ∨ c.length = 16
+  · have hc16 := as16_len c hc
+    have hn : (if addr.length = 4 then 8 * addr.length + 96 else 8 * addr.length) = 128 := by
+      cases hlen with
+      | inl h4 => simp [h4]
+      | inr h16 => simp [h16]
+    rw [hn]
+    congr 1
+    rw [Bool.eq_iff_iff]
+    simp only [beq_iff_eq, netNum, Nat.sub_self, Nat.pow_zero, Nat.div_one]
+    constructor
+    · intro hb; exact beNat_inj _ _ (by omega) hb
+    · intro hb; rw [hb]
+  · have h1 : (c.length == 4) = false := beq_false_of_ne (fun h => hc (Or.inl h))
+    have h2 : (c.length == 16) = false := beq_false_of_ne (fun h => hc (Or.inr h))
+    simp [h1, h2]
+
+/-- **`::/0` (any block of 0 bits written in IPv6 form) holds every client
+    address**, IPv4 ones included (that is the repaired finding). -/
+theorem prefix_zero_v6_admits_every_address (addr c : Bytes) (ha : addr.length = 16) :
+    uniformMatch { addr := addr, pfx := some 0 } c = (c.length == 4 || c.length == 16) := by
+  have hne : ¬ addr.length = 4 := by omega
+  simp only [uniformMatch, hne, if_false]
+  by_cases hc : c.length = 4 ∨ c.length = 16
+  · have hc16 := as16_len c hc
+    have ha16 := as16_len addr (Or.inr ha)
+    have h1 := beNat_lt (as16 addr)
+    have h2 := beNat_lt (as16 c)
+    rw [ha16] at h1
+    rw [hc16] at h2
+    have e : (256 : Nat) ^ 16 = 2 ^ (128 - 0) := by decide
+    rw [e] at h1 h2
+    simp only [netNum, Nat.div_eq_of_lt h1, Nat.div_eq_of_lt h2, beq_self_eq_true, Bool.and_true]
+  · have h1 : (c.length == 4) = false := beq_false_of_ne (fun h => hc (Or.inl h))
+    have h2 : (c.length == 16) = false := beq_false_of_ne (fun h => hc (Or.inr h))
+    simp [h1, h2]
+
+/-- **`0.0.0.0/0` (any dotted-quad block of 0 bits) holds exactly the IPv4 and
+    IPv4-mapped clients**, and no IPv6 client. -/
+theorem prefix_zero_v4_admits_exactly_v4 (addr c : Bytes) (ha : addr.length = 4) :
+    uniformMatch { addr := addr, pfx := some 0 } c = (to4 c).isSome := by
+  have hwf : ({ addr := addr, pfx := some 0 } : Entry).WF := ⟨Or.inl ha, by intro n hn; simp at hn; omega⟩
+  cases hc : to4 c with
+  | none =>
+    exact uniformMatch_v4Block_v6client _ 0 c hwf rfl (by simp [v4Block, ha]) hc
+  | some c4 =>
+    obtain ⟨hc16, hcl⟩ := as16_of_to4 c c4 hc
+    have hc4 := to4_some_len c c4 hc
+    have hl : (c.length == 4 || c.length == 16) = true := by
+      cases hcl with
+      | inl h => simp [h]
+      | inr h => simp [h]
+    have ha16 : as16 addr = v4InV6Prefix ++ addr := by simp [as16, ha]
+    simp only [uniformMatch, hl, Bool.true_and, ha, if_true, ha16, hc16, Option.isSome_some]
+    have e : (0 : Nat) + 96 = 0 + 96 := rfl
+    rw [netNum_split _ addr 0 ha (by omega), netNum_split _ c4 0 hc4 (by omega)]
+    have h1 := netNum32_lt addr 0 ha (by omega)
+    have h2 := netNum32_lt c4 0 hc4 (by omega)
+    simp only [Nat.pow_zero, Nat.lt_one_iff] at h1 h2
+    rw [h1, h2]
+    simp
+
+/-- **An entry that does not parse refuses the whole list** (the namespace is
+    not created / the reload is rejected): `parseAllowIps` fails exactly when
+    some non-blank entry is meaningless. -/
+theorem unparsable_entry_refuses_list (pa : Bytes → Option Addr) (hpa : PAwf pa) (l : List Bytes) :
+    parseAllowIps pa l = .fail ↔ ∃ t ∈ l, (trimSpace t).length ≠ 0 ∧ denote pa (trimSpace t) = none := by
+  rw [parseAllowIps_eq pa hpa l]
+  induction l with
+  | nil => simp [listed]
+  | cons s rest ih =>
+    unfold listed
+    by_cases hb : (trimSpace s).length = 0
+    · simp only [hb, if_true, List.mem_cons, exists_eq_or_imp, ne_eq, not_true_eq_false, false_and, false_or]
+      exact ih
+    · simp only [hb, if_false, List.mem_cons, exists_eq_or_imp, ne_eq, not_false_eq_true, true_and]
+      cases hd : denote pa (trimSpace s) with
+      | none => simp
+      | some e =>
+        cases hl : listed pa rest with
+        | none =>
+          rw [hl] at ih
+          simp only [true_iff] at ih ⊢
+          simpa using ih
+        | some es =>
+          rw [hl] at ih
+          simp only [reduceCtorEq, false_iff, not_exists, not_and] at ih ⊢
+          simpa using ih
+
+/-- **No entry is silently dropped**: a loaded list has one `IPInfo` per
+    non-blank entry text. -/
+theorem no_entry_dropped (pa : Bytes → Option Addr) (l : List Bytes) (infos : List IPInfo)
+    (h : parseAllowIps pa l = .ok infos) :
+    infos.length = (l.filter fun t => (trimSpace t).length ≠ 0).length := by
+  induction l generalizing infos with
+  | nil => simp [parseAllowIps] at h; subst h; rfl
+  | cons s rest ih =>
+    unfold parseAllowIps at h
+    by_cases hb : (trimSpace s).length = 0
+    · simp only [hb, if_true] at h
+      have hb' : trimSpace s = [] := List.length_eq_zero_iff.mp hb
+      simp [hb', ih infos h]
+    · simp only [hb, if_false] at h
+      cases hp : parseIPInfo pa (trimSpace s) with
+      | none => rw [hp] at h; simp at h
+      | some info =>
+        rw [hp] at h
+        cases hr : parseAllowIps pa rest with
+        | ok l' =>
+          rw [hr] at h
+          simp only [R.ok.injEq] at h
+          subst h
+          have hb' : ¬ trimSpace s = [] := fun h0 => hb (by rw [h0]; rfl)
+          simp [hb', ih l' hr]
+        | fail => rw [hr] at h; simp at h
+        | panic => rw [hr] at h; simp at h
+
+/-- **A list with a non-blank entry never becomes the open list**: whatever the
+    entries are, if the namespace loads then the client is admitted only by a
+    matching entry — the "no entry = everyone" branch is not taken. -/
+theorem nonblank_list_never_open (pa : Bytes → Option Addr) (l : List Bytes) (infos : List IPInfo) (c : Bytes)
+    (h : parseAllowIps pa l = .ok infos) (hne : ∃ t ∈ l, (trimSpace t).length ≠ 0) :
+    infos ≠ [] ∧ isClientIPAllowed infos c = matchAny infos c := by
+  have hlen := no_entry_dropped pa l infos h
+  obtain ⟨t, ht, hb⟩ := hne
+  have : 0 < (l.filter fun t => (trimSpace t).length ≠ 0).length :=
+    List.length_pos_of_mem (List.mem_filter.mpr ⟨ht, by simpa using hb⟩)
+  have hpos : infos.length ≠ 0 := by omega
+  refine ⟨by intro h0; subst h0; simp at hpos, ?_⟩
+  simp [isClientIPAllowed, hpos]
+
+/-! ### the reference address syntax: decimal octets without leading zeros -/
+
+/-- A field of a dotted quad is read as a decimal number of at most three
+    digits, at most 255, *without a leading zero* — `010` is not 8 (octal) and
+    not 10: it is no field at all. -/
+theorem v4Field_decimal (p : Bytes) (v : UInt8) (h : v4Field p = some v) :
+    p ≠ [] ∧ p.all isDigit = true ∧ ¬ (p.length > 1 ∧ p.head? = some 0x30) ∧ p.length ≤ 3
+      ∧ decVal p ≤ 255 ∧ v.toNat = decVal p := by
+  unfold v4Field at h
+  split at h
+  · simp at h
+  · rename_i h1
+    split at h
+    · simp at h
+    · rename_i h2
+      split at h
+      · simp at h
+      · rename_i h3
+        split at h
+        · simp at h
+        · rename_i h4
+          simp only [Option.some.injEq] at h
+          subst h
+          simp only [Bool.or_eq_true, Bool.not_eq_eq_eq_not, Bool.not_true, not_or, Bool.not_eq_false,
+            List.isEmpty_iff] at h1
+          simp only [Bool.and_eq_true, decide_eq_true_eq, beq_iff_eq, not_and] at h2
+          refine ⟨h1.1, h1.2, fun ⟨a, b⟩ => h2 a b, by simpa using h3, by omega, ?_⟩
+          have : decVal p < 256 := by omega
+          simp [UInt8.toNat_ofNat, Nat.mod_eq_of_lt this]
+
+theorem v4Field_leading_zero (p : Bytes) (hl : p.length > 1) (h0 : p.head? = some 0x30) : v4Field p = none := by
+  cases h : v4Field p with
+  | none => rfl
+  | some v => exact absurd ⟨hl, h0⟩ (v4Field_decimal p v h).2.2.1
+
+/-- **An octet with a leading zero makes the dotted quad unparsable**
+    (`010.0.0.1`, `192.168.001.1`): it is neither read as octal nor as decimal. -/
+theorem leading_zero_octet_rejected (s p : Bytes) (hp : p ∈ splitOn 0x2e s) (hl : p.length > 1)
+    (h0 : p.head? = some 0x30) : parseIPv4Fields s = none := by
+  unfold parseIPv4Fields
+  have hn : none ∈ (splitOn 0x2e s).map v4Field :=
+    List.mem_map.mpr ⟨p, hp, v4Field_leading_zero p hl h0⟩
+  split
+  · rename_i a b c d heq
+    rw [heq] at hn
+    simp at hn
+  · rfl
+
+/-- The dotted quads the reference syntax accepts are exactly four decimal
+    fields as above, and the address bytes are their values. -/
+theorem parseIPv4Fields_decimal (s b : Bytes) (h : parseIPv4Fields s = some b) :
+    ∃ p1 p2 p3 p4, splitOn 0x2e s = [p1, p2, p3, p4]
+      ∧ b.map UInt8.toNat = [decVal p1, decVal p2, decVal p3, decVal p4]
+      ∧ ∀ p ∈ [p1, p2, p3, p4], p ≠ [] ∧ p.all isDigit = true ∧ ¬ (p.length > 1 ∧ p.head? = some 0x30) := by
+  unfold parseIPv4Fields at h
+  split at h
+  · rename_i a b' c d heq
+    simp only [Option.some.injEq] at h
+    subst h
+    generalize splitOn 0x2e s = l at heq
+    obtain _ | ⟨p1, _ | ⟨p2, _ | ⟨p3, _ | ⟨p4, _ | ⟨p5, l⟩⟩⟩⟩⟩ := l
+    all_goals (first | (simp at heq; done) | skip)
+    · simp only [List.map_cons, List.map_nil, List.cons.injEq, and_true] at heq
+      obtain ⟨e1, e2, e3, e4⟩ := heq
+      have d1 := v4Field_decimal p1 a e1
+      have d2 := v4Field_decimal p2 b' e2
+      have d3 := v4Field_decimal p3 c e3
+      have d4 := v4Field_decimal p4 d e4
+      refine ⟨p1, p2, p3, p4, rfl, ?_, ?_⟩
+      · simp [d1.2.2.2.2.2, d2.2.2.2.2.2, d3.2.2.2.2.2, d4.2.2.2.2.2]
+      · intro p hp
+        simp only [List.mem_cons, List.not_mem_nil, or_false] at hp
+        rcases hp with rfl | rfl | rfl | rfl
+        · exact ⟨d1.1, d1.2.1, d1.2.2.1⟩
+        · exact ⟨d2.1, d2.2.1, d2.2.2.1⟩
+        · exact ⟨d3.1, d3.2.1, d3.2.2.1⟩
+        · exact ⟨d4.1, d4.2.1, d4.2.2.1⟩
+  · simp at h
+
+/-- `010.0.0.1`, `192.168.001.1`, `::ffff:010.1.1.1`, `010.0.0.1/8` -/
+def exOctal1 : Bytes := [0x30, 0x31, 0x30, 0x2e, 0x30, 0x2e, 0x30, 0x2e, 0x31]
+def exOctal2 : Bytes := [0x31, 0x39, 0x32, 0x2e, 0x31, 0x36, 0x38, 0x2e, 0x30, 0x30, 0x31, 0x2e, 0x31]
+def exOctal3 : Bytes := [0x3a, 0x3a, 0x66, 0x66, 0x66, 0x66, 0x3a, 0x30, 0x31, 0x30, 0x2e, 0x31, 0x2e, 0x31, 0x2e, 0x31]
+def exOctal4 : Bytes := [0x30, 0x31, 0x30, 0x2e, 0x30, 0x2e, 0x30, 0x2e, 0x31, 0x2f, 0x38]
+/-- `10.0.0.1` -/
+def exTen : Bytes := [0x31, 0x30, 0x2e, 0x30, 0x2e, 0x30, 0x2e, 0x31]
+
+set_option maxRecDepth 100000 in
+/-- A list holding an entry with a leading-zero octet is refused as a whole —
+    also next to valid entries, also in the IPv4-mapped and the block form —
+    so neither 8.0.0.1 nor 10.0.0.1 is admitted on its account. -/
+example :
+    listed netipParseAddr [exOctal1] = none ∧ listed netipParseAddr [exTen, exOctal2] = none
+    ∧ listed netipParseAddr [exOctal3] = none ∧ listed netipParseAddr [exOctal4] = none
+    ∧ parseAllowIps netipParseAddr [exTen, exOctal1] = .fail
+    ∧ (listed netipParseAddr [exTen]).isSome = true := by decide
+
+/-! ### the remote address text: `host:port`, `[v6%zone]:port`, unix sockets -/
+
+theorem indexOf_not_mem (c : UInt8) : ∀ (a : Bytes), c ∉ a → indexOf c a = none := by
+  intro a
+  induction a with
+  | nil => intro _; rfl
+  | cons x xs ih =>
+    intro h
+    simp only [List.mem_cons, not_or] at h
+    have hx : ¬ x = c := fun e => h.1 e.symm
+    simp [indexOf, hx, ih h.2]
+
+theorem indexOf_append (c : UInt8) : ∀ (a b : Bytes), c ∉ a →
+    indexOf c (a ++ c :: b) = some a.length := by
+  intro a
+  induction a with
+  | nil => intro b _; simp [indexOf]
+  | cons x xs ih =>
+    intro b h
+    simp only [List.mem_cons, not_or] at h
+    have hx : ¬ x = c := fun e => h.1 e.symm
+    simp [indexOf, hx, ih b h.2]
+
+theorem lastIndexOf_append (c : UInt8) (a b : Bytes) (h : c ∉ b) :
+    lastIndexOf c (a ++ c :: b) = some a.length := by
+  unfold lastIndexOf
+  have e : (a ++ c :: b).reverse = b.reverse ++ c :: a.reverse := by simp
+  rw [e, indexOf_append c b.reverse a.reverse (by simpa using h)]
+  simp only [Option.map_some, List.length_reverse, List.length_append, List.length_cons, Option.some.injEq]
+  omega
+
+theorem contains_false_of_not_mem (c : UInt8) (a : Bytes) (h : c ∉ a) : a.contains c = false := by
+  simpa using h
+
+/-- **The proxy recovers exactly the host the connection wrote.**  The text of
+    a TCP remote address is `JoinHostPort(host, port)` (`host` = the IP's text,
+    `%zone` appended); for every host without brackets and every port without
+    colon or brackets `net.SplitHostPort` as modelled gives that host back. -/
+theorem splitHost_joinHostPort (host port : Bytes) (hh1 : 0x5b ∉ host) (hh2 : 0x5d ∉ host)
+    (hp1 : 0x3a ∉ port) (hp2 : 0x5b ∉ port) (hp3 : 0x5d ∉ port) :
+    splitHost (joinHostPort host port) = some host := by
+  unfold joinHostPort
+  by_cases hc : host.contains 0x3a = true
+  · -- "[" host "]:" port
+    rw [if_pos hc]
+    have e1 : [0x5b] ++ host ++ [0x5d, 0x3a] ++ port = ((0x5b : UInt8) :: host ++ [0x5d]) ++ 0x3a :: port := by simp
+    have e2 : [0x5b] ++ host ++ [0x5d, 0x3a] ++ port = ((0x5b : UInt8) :: host) ++ 0x5d :: (0x3a :: port) := by simp
+    unfold splitHost
+    rw [e1, lastIndexOf_append 0x3a _ port hp1, ← e1]
+    have hhead : ([0x5b] ++ host ++ [0x5d, 0x3a] ++ port).head? = some 0x5b := by simp
+    simp only [hhead, if_true]
+    have hnm : (0x5d : UInt8) ∉ (0x5b : UInt8) :: host := by
+      simp only [List.mem_cons, not_or]; exact ⟨by decide, hh2⟩
+    rw [e2, indexOf_append 0x5d _ (0x3a :: port) hnm, ← e2]
+    have hlen : ¬ (((0x5b : UInt8) :: host).length + 1 = ([0x5b] ++ host ++ [0x5d, 0x3a] ++ port).length) := by
+      simp
+    have hi : ((0x5b : UInt8) :: host).length + 1 = ((0x5b : UInt8) :: host ++ [0x5d]).length := by simp
+    simp only [hlen, if_false, hi, if_true]
+    have d1 : ([0x5b] ++ host ++ [0x5d, 0x3a] ++ port).drop 1 = host ++ 0x5d :: 0x3a :: port := by simp
+    have c1 : (host ++ (0x5d : UInt8) :: 0x3a :: port).contains 0x5b = false := by
+      apply contains_false_of_not_mem
+      simp only [List.mem_append, List.mem_cons, not_or]
+      exact ⟨hh1, by decide, by decide, hp2⟩
+    have d2 : ([0x5b] ++ host ++ [0x5d, 0x3a] ++ port).drop (((0x5b : UInt8) :: host ++ [0x5d]).length)
+        = 0x3a :: port := by
+      rw [e1]; simp
+    have c2 : ((0x3a : UInt8) :: port).contains 0x5d = false := by
+      apply contains_false_of_not_mem
+      simp only [List.mem_cons, not_or]
+      exact ⟨by decide, hp3⟩
+    rw [d1, c1, d2, c2]
+    have t1 : ([0x5b] ++ host ++ [0x5d, 0x3a] ++ port).take ((0x5b : UInt8) :: host).length = 0x5b :: host := by
+      rw [e2]; simp
+    simp [t1]
+  · -- host ":" port
+    rw [if_neg hc]
+    have hc' : (0x3a : UInt8) ∉ host := by simpa using hc
+    have e1 : host ++ [0x3a] ++ port = host ++ 0x3a :: port := by simp
+    unfold splitHost
+    rw [e1, lastIndexOf_append 0x3a host port hp1]
+    have hhead : (host ++ (0x3a : UInt8) :: port).head? ≠ some 0x5b := by
+      cases host with
+      | nil => simp
+      | cons x xs =>
+        simp only [List.mem_cons, not_or] at hh1
+        simp only [List.cons_append, List.head?_cons, ne_eq, Option.some.injEq]
+        exact fun e => hh1.1 e.symm
+    simp only [hhead, if_false]
+    have t : (host ++ (0x3a : UInt8) :: port).take host.length = host := by simp
+    have c1 : (host ++ (0x3a : UInt8) :: port).contains 0x5b = false := by
+      apply contains_false_of_not_mem
+      simp only [List.mem_append, List.mem_cons, not_or]
+      exact ⟨hh1, by decide, hp2⟩
+    have c2 : (host ++ (0x3a : UInt8) :: port).contains 0x5d = false := by
+      apply contains_false_of_not_mem
+      simp only [List.mem_append, List.mem_cons, not_or]
+      exact ⟨hh2, by decide, hp3⟩
+    have hc0 : host.contains 0x3a = false := by simpa using hc
+    simp only [t, hc0, c1, c2, Bool.false_eq_true, if_false, Bool.or_self]
+
+/-- The client address `Session.IsAllowConnect` derives from the text of
+    `RemoteAddr()`: host of `SplitHostPort` (empty on error), zone dropped,
+    `net.ParseIP` (nil on failure). -/
+def clientOf (pa : Bytes → Option Addr) (remote : Bytes) : Bytes :=
+  let host := (splitHost remote).getD []
+  let host := match indexOf 0x25 host with
+    | some i => host.take i
+    | none => host
+  (parseIP pa host).getD []
+
+theorem isAllowConnect_eq (pa : Bytes → Option Addr) (infos : List IPInfo) (remote : Bytes) :
+    isAllowConnect pa infos remote = isClientIPAllowed infos (clientOf pa remote) := rfl
+
+/-- The host text with its zone cut off. -/
+def stripZone (host : Bytes) : Bytes :=
+  match indexOf 0x25 host with
+  | some i => host.take i
+  | none => host
+
+/-- **TCP clients** (`host:port`, `[v6]:port`, `[v6%zone]:port`): the client
+    address is the parsed host, whatever the port and the zone. -/
+theorem clientOf_tcp (pa : Bytes → Option Addr) (host port : Bytes) (hh1 : 0x5b ∉ host) (hh2 : 0x5d ∉ host)
+    (hp1 : 0x3a ∉ port) (hp2 : 0x5b ∉ port) (hp3 : 0x5d ∉ port) :
+    clientOf pa (joinHostPort host port) = (parseIP pa (stripZone host)).getD [] := by
+  simp only [clientOf, splitHost_joinHostPort host port hh1 hh2 hp1 hp2 hp3, Option.getD_some, stripZone]
+
+/-- The port does not matter. -/
+theorem conn_port_irrelevant (pa : Bytes → Option Addr) (infos : List IPInfo) (host p q : Bytes)
+    (hh1 : 0x5b ∉ host) (hh2 : 0x5d ∉ host)
+    (hp : 0x3a ∉ p ∧ 0x5b ∉ p ∧ 0x5d ∉ p) (hq : 0x3a ∉ q ∧ 0x5b ∉ q ∧ 0x5d ∉ q) :
+    isAllowConnect pa infos (joinHostPort host p) = isAllowConnect pa infos (joinHostPort host q) := by
+  rw [isAllowConnect_eq, isAllowConnect_eq, clientOf_tcp pa host p hh1 hh2 hp.1 hp.2.1 hp.2.2,
+    clientOf_tcp pa host q hh1 hh2 hq.1 hq.2.1 hq.2.2]
+
+/-- **Clients without an address** (unix sockets: `@`, a path, the empty text —
+    anything `SplitHostPort` refuses, or whose host is no address): the client
+    is the nil IP. -/
+theorem clientOf_no_hostport (pa : Bytes → Option Addr) (hpa0 : pa [] = none) (remote : Bytes)
+    (h : splitHost remote = none) : clientOf pa remote = [] := by
+  simp [clientOf, h, indexOf, parseIP, hpa0]
+
+/-- The nil IP matches no listed entry: such a client connects only to a
+    namespace whose list is empty ("open"). -/
+theorem nil_client_only_open_list (pa : Bytes → Option Addr) (hpa : PAwf pa) (l : List Bytes)
+    (es : List Entry) (hl : listed pa l = some es) :
+    (parseAllowIps pa l >>= fun infos => isClientIPAllowed infos []) = .ok es.isEmpty := by
+  rw [allow_iff pa hpa l [], hl]
+  have : es.any (fun e => uniformMatch e []) = false := by
+    rw [List.any_eq_false]; intro e _; simp [uniformMatch]
+  simp [this]
+
+/-- **A unix-socket client is refused by every non-empty allow-list** (and, as
+    every client, admitted by the empty one). -/
+theorem no_address_client_refused (pa : Bytes → Option Addr) (hpa : PAwf pa) (hpa0 : pa [] = none)
+    (l : List Bytes) (es : List Entry) (hl : listed pa l = some es) (remote : Bytes)
+    (h : splitHost remote = none) :
+    (parseAllowIps pa l >>= fun infos => isAllowConnect pa infos remote) = .ok es.isEmpty := by
+  have : (fun infos => isAllowConnect pa infos remote) = fun infos => isClientIPAllowed infos [] := by
+    funext infos; rw [isAllowConnect_eq, clientOf_no_hostport pa hpa0 remote h]
+  rw [this]
+  exact nil_client_only_open_list pa hpa l es hl
+
+/-- The texts `@` (what an accepted unix-socket connection reports), the empty
+    text, `/tmp/mysql.sock`: no host, no port. -/
+example : splitHost [0x40] = none ∧ splitHost [] = none
+    ∧ splitHost [0x2f, 0x74, 0x6d, 0x70, 0x2f, 0x6d, 0x79, 0x73, 0x71, 0x6c, 0x2e, 0x73, 0x6f, 0x63, 0x6b] = none ∧ netipParseAddr [] = none := by decide
+
+/-- `127.0.0.1:44006` -/
+def exRemote4 : Bytes := [0x31, 0x32, 0x37, 0x2e, 0x30, 0x2e, 0x30, 0x2e, 0x31, 0x3a, 0x34, 0x34, 0x30, 0x30, 0x36]
+/-- `[::1]:54968` -/
+def exRemote6 : Bytes := [0x5b, 0x3a, 0x3a, 0x31, 0x5d, 0x3a, 0x35, 0x34, 0x39, 0x36, 0x38]
+/-- `[fe80::1%eth0]:3306` -/
+def exRemoteZone : Bytes := [0x5b, 0x66, 0x65, 0x38, 0x30, 0x3a, 0x3a, 0x31, 0x25, 0x65, 0x74, 0x68, 0x30, 0x5d, 0x3a, 0x33, 0x33, 0x30, 0x36]
+/-- `fe80::1%eth0` and `3306` -/
+def exHostZone : Bytes := [0x66, 0x65, 0x38, 0x30, 0x3a, 0x3a, 0x31, 0x25, 0x65, 0x74, 0x68, 0x30]
+def exPort : Bytes := [0x33, 0x33, 0x30, 0x36]
+
+set_option maxRecDepth 100000 in
+/-- Remote address texts as the kernel reports them (tcp4, tcp6, a scoped
+    link-local peer) and the client addresses the proxy derives. -/
+example :
+    clientOf netipParseAddr exRemote4 = v4InV6Prefix ++ [127, 0, 0, 1]
+    ∧ clientOf netipParseAddr exRemote6 = [0, 0, 0, 0, 0, 0, 0, 0, 0, 0, 0, 0, 0, 0, 0, 1]
+    ∧ clientOf netipParseAddr exRemoteZone = [0xfe, 0x80, 0, 0, 0, 0, 0, 0, 0, 0, 0, 0, 0, 0, 0, 1]
+    ∧ joinHostPort exHostZone exPort = exRemoteZone
+    ∧ 0x5b ∉ exHostZone ∧ 0x5d ∉ exHostZone ∧ 0x3a ∉ exPort ∧ 0x5b ∉ exPort ∧ 0x5d ∉ exPort := by
+  decide
+
+/-! ### zone identifiers in list entries -/
+
+theorem splitOn_ne_nil (sep : UInt8) (s : Bytes) : splitOn sep s ≠ [] := by
+  cases s with
+  | nil => simp [splitOn]
+  | cons c cs =>
+    unfold splitOn
+    split <;> simp
+    split <;> simp
+
+theorem mem_splitOn (sep : UInt8) : ∀ (s : Bytes) (c : UInt8), c ∈ s → c = sep ∨ ∃ p ∈ splitOn sep s, c ∈ p := by
+  intro s
+  induction s with
+  | nil => intro c h; simp at h
+  | cons x xs ih =>
+    intro c h
+    unfold splitOn
+    cases hs : splitOn sep xs with
+    | nil => exact absurd hs (splitOn_ne_nil sep xs)
+    | cons p ps =>
+      simp only
+      rw [hs] at ih
+      simp only [List.mem_cons] at h
+      by_cases hx : x = sep
+      · simp only [hx, if_true]
+        rcases h with h | h
+        · left; rw [h, hx]
+        · rcases ih c h with h1 | ⟨q, hq, hc⟩
+          · left; exact h1
+          · right; exact ⟨q, by simp only [List.mem_cons] at hq ⊢; right; exact hq, hc⟩
+      · simp only [hx, if_false]
+        rcases h with h | h
+        · right; exact ⟨x :: p, by simp, by simp [h]⟩
+        · rcases ih c h with h1 | ⟨q, hq, hc⟩
+          · left; exact h1
+          · right
+            simp only [List.mem_cons] at hq
+            rcases hq with hq | hq
+            · exact ⟨x :: p, by simp, by rw [hq] at hc; simp [hc]⟩
+            · exact ⟨q, by simp [hq], hc⟩
+
+/-- A dotted quad holds digits and dots only. -/
+theorem parseIPv4Fields_chars (s b : Bytes) (h : parseIPv4Fields s = some b) (c : UInt8) (hc : c ∈ s) :
+    c = 0x2e ∨ isDigit c = true := by
+  obtain ⟨p1, p2, p3, p4, hs, _, hall⟩ := parseIPv4Fields_decimal s b h
+  rcases mem_splitOn 0x2e s c hc with h1 | ⟨p, hp, hcp⟩
+  · left; exact h1
+  · right
+    rw [hs] at hp
+    have := (hall p hp).2.1
+    rw [List.all_eq_true] at this
+    exact this c hcp
+
+/-- **The reference syntax reports a zone exactly when the text holds a `%`.** -/
+theorem netipParseAddr_zone (s : Bytes) (a : Addr) (h : netipParseAddr s = some a) :
+    a.zone = s.contains 0x25 := by
+  unfold netipParseAddr at h
+  split at h
+  · cases hp : parseIPv4Fields s with
+    | none => rw [hp] at h; simp at h
+    | some b =>
+      rw [hp] at h
+      simp only [Option.map_some, Option.some.injEq] at h
+      subst h
+      have : ¬ (0x25 : UInt8) ∈ s := by
+        intro hm
+        rcases parseIPv4Fields_chars s b hp 0x25 hm with h1 | h1
+        · exact absurd h1 (by decide)
+        · exact absurd h1 (by decide)
+      simp only
+      symm
+      simpa using this
+  · unfold parseIPv6 at h
+    simp only at h
+    repeat' split at h
+    all_goals (first | (simp at h; done) | skip)
+    all_goals (simp only [Option.some.injEq] at h; subst h; rfl)
+  · simp at h
+
+theorem dtoiLoop_all (m : Bytes) : ∀ (n i v j : Nat), dtoiLoop m n i = some (v, j) → j = i + m.length →
+    ∀ c ∈ m, (0x30 ≤ c ∧ c ≤ 0x39) := by
+  induction m with
+  | nil => intro n i v j _ _ c hc; simp at hc
+  | cons x xs ih =>
+    intro n i v j h hj c hc
+    unfold dtoiLoop at h
+    by_cases hx : 0x30 ≤ x ∧ x ≤ 0x39
+    · simp only [hx, and_self, if_true] at h
+      split at h
+      · simp at h
+      · simp only [List.mem_cons] at hc
+        rcases hc with hc | hc
+        · rw [hc]; exact hx
+        · exact ih _ _ v j h (by simp only [List.length_cons] at hj; omega) c hc
+    · simp only [hx, if_false, Option.some.injEq, Prod.mk.injEq] at h
+      simp only [List.length_cons] at hj
+      omega
+
+/-- **A list entry with a zone identifier is refused** (`fe80::1%eth0`,
+    `fe80::%eth0/10`, also a `%` in the prefix length): the allow-list has no
+    zones; the zone of a *client* address is dropped instead (`clientOf`). -/
+theorem zoned_entry_refused (t : Bytes) (h : (0x25 : UInt8) ∈ t) : denote netipParseAddr t = none := by
+  have hsecond : (match netipParseAddr t with
+      | some ad => if ad.zone then none else some ({ addr := ad.bytes, pfx := none } : Entry)
+      | none => none) = none := by
+    cases hp : netipParseAddr t with
+    | none => rfl
+    | some ad =>
+      have hz := netipParseAddr_zone t ad hp
+      have : t.contains 0x25 = true := by simpa using h
+      rw [this] at hz
+      simp [hz]
+  have hfirst : denoteCIDR netipParseAddr t = none := by
+    unfold denoteCIDR
+    cases hcut : cutSlash t with
+    | none => rfl
+    | some p =>
+      obtain ⟨a, m⟩ := p
+      simp only
+      cases hp : netipParseAddr a with
+      | none => rfl
+      | some ad =>
+        simp only
+        by_cases hza : ad.zone = true
+        · simp [hza]
+        · simp only [hza, Bool.false_eq_true, if_false]
+          -- the `%` is not in the address part, so it is in the prefix length, which is then no number
+          have hz := netipParseAddr_zone a ad hp
+          have hna : ¬ (0x25 : UInt8) ∈ a := by
+            intro hm
+            have : a.contains 0x25 = true := by simpa using hm
+            rw [this] at hz
+            exact hza hz
+          have hm : (0x25 : UInt8) ∈ m := by
+            have hcs : ∀ (t a m : Bytes), cutSlash t = some (a, m) → ∀ c ∈ t, c ∈ a ∨ c = 0x2f ∨ c ∈ m := by
+              intro t
+              induction t with
+              | nil => intro a m h0; simp [cutSlash] at h0
+              | cons x xs ih =>
+                intro a m h0 c hc
+                unfold cutSlash at h0
+                by_cases hx : x = 0x2f
+                · simp only [hx, if_true, Option.some.injEq, Prod.mk.injEq] at h0
+                  simp only [List.mem_cons] at hc
+                  rcases hc with hc | hc
+                  · right; left; rw [hc, hx]
+                  · right; right; rw [← h0.2]; exact hc
+                · simp only [hx, if_false] at h0
+                  cases hr : cutSlash xs with
+                  | none => rw [hr] at h0; simp at h0
+                  | some q =>
+                    obtain ⟨a', m'⟩ := q
+                    rw [hr] at h0
+                    simp only [Option.some.injEq, Prod.mk.injEq] at h0
+                    simp only [List.mem_cons] at hc
+                    rcases hc with hc | hc
+                    · left; rw [← h0.1, hc]; simp
+                    · rcases ih a' m' hr c hc with h1 | h1 | h1
+                      · left; rw [← h0.1]; simp [h1]
+                      · right; left; exact h1
+                      · right; right; rw [← h0.2]; exact h1
+            rcases hcs t a m hcut 0x25 h with h1 | h1 | h1
+            · exact absurd h1 hna
+            · exact absurd h1 (by decide)
+            · exact h1
+          have hbad : (!(dtoi m).2.2 || decide ((dtoi m).2.1 ≠ m.length)) = true := by
+            unfold dtoi
+            cases hd : dtoiLoop m 0 0 with
+            | none => simp
+            | some r =>
+              obtain ⟨v, j⟩ := r
+              simp only
+              by_cases hj0 : j = 0
+              · simp [hj0]
+              · simp only [hj0, if_false, Bool.not_true, Bool.false_or, decide_eq_true_eq]
+                intro hjm
+                have := dtoiLoop_all m 0 0 v j hd (by omega) 0x25 hm
+                exact absurd this (by decide)
+          have hb2 : (!(dtoi m).2.2 || decide ((dtoi m).2.1 ≠ m.length) || decide ((dtoi m).1 > 8 * ad.bytes.length)) = true := by
+            rw [hbad]; rfl
+          rw [if_pos hb2]
+  unfold denote
+  rw [hfirst]
+  exact hsecond
+
+/-- `fe80::1%eth0`, `fe80::%eth0/10` -/
+def exZone1 : Bytes := [0x66, 0x65, 0x38, 0x30, 0x3a, 0x3a, 0x31, 0x25, 0x65, 0x74, 0x68, 0x30]
+def exZone2 : Bytes := [0x66, 0x65, 0x38, 0x30, 0x3a, 0x3a, 0x25, 0x65, 0x74, 0x68, 0x30, 0x2f, 0x31, 0x30]
+example : (0x25 : UInt8) ∈ exZone1 ∧ (0x25 : UInt8) ∈ exZone2
+    ∧ netipParseAddr exZone1 = some { bytes := [0xfe, 0x80, 0, 0, 0, 0, 0, 0, 0, 0, 0, 0, 0, 0, 0, 1], zone := true } := by
+  decide
+
+/-! ### the connection handler: tcp and unix-socket connections -/
+
+/-- **No client crashes the proxy by the kind of its connection**, and a client
+    with valid credentials gets the OK packet exactly when `IsAllowConnect`
+    admits its remote address — over TCP and over a unix socket alike. -/
+theorem onConn_admits_iff (pa : Bytes → Option Addr) (infos : List IPInfo) (kind : ConnKind) (remote : Bytes) :
+    onConn pa infos kind remote ≠ .ok .crash ∧
+    (onConn pa infos kind remote = .ok .ok ↔ isAllowConnect pa infos remote = .ok true) ∧
+    (onConn pa infos kind remote = .ok .denied ↔ isAllowConnect pa infos remote = .ok false) := by
+  unfold onConn
+  cases h : isAllowConnect pa infos remote with
+  | ok b => cases b <;> simp
+  | fail => simp
+  | panic => simp
+
+/-- **Pinned witness of the repaired defect.**  Before the fix: commit, a client
+    arriving over a unix socket (proto_type=unix) made `newSession` panic on
+    `co.(*net.TCPConn)` before `onConn` had installed its recover: the process
+    ended, whatever the allow-list.  The repaired handler treats the client as
+    one without an address: admitted by the empty list only. -/
+theorem unix_client_crashed_pinned_witness :
+    onConnPinned netipParseAddr [] .unix [0x40] = .ok .crash
+    ∧ onConn netipParseAddr [] .unix [0x40] = .ok .ok
+    ∧ (parseAllowIps netipParseAddr [exTen] >>= fun infos => onConn netipParseAddr infos .unix [0x40]) = .ok .denied := by
+  decide
+
+section HexCase
+set_option maxRecDepth 100000
+
+/-! ### the reference address syntax: upper-case hex digits -/
+
+/-- `A`–`F` to `a`–`f`, every other byte as it is. -/
+def lowerHex (c : UInt8) : UInt8 := if 0x41 ≤ c ∧ c ≤ 0x46 then c + 0x20 else c
+
+theorem lowerHex_hexVal (c : UInt8) : hexVal8? (lowerHex c) = hexVal8? c := by
+  revert c; apply u8_cases; decide
+
+theorem lowerHex_isHex (c : UInt8) : (hexVal8? (lowerHex c)).isSome = (hexVal8? c).isSome := by
+  rw [lowerHex_hexVal]
+
+theorem lowerHex_eq_dot (c : UInt8) : (lowerHex c = 0x2e) = (c = 0x2e) := by
+  revert c; apply u8_cases; decide
+theorem lowerHex_eq_colon (c : UInt8) : (lowerHex c = 0x3a) = (c = 0x3a) := by
+  revert c; apply u8_cases; decide
+theorem lowerHex_eq_pct (c : UInt8) : (lowerHex c = 0x25) = (c = 0x25) := by
+  revert c; apply u8_cases; decide
+theorem lowerHex_eq_zero (c : UInt8) : (lowerHex c = 0x30) = (c = 0x30) := by
+  revert c; apply u8_cases; decide
+theorem lowerHex_isDigit (c : UInt8) : isDigit (lowerHex c) = isDigit c := by
+  revert c; apply u8_cases; decide
+theorem lowerHex_digit (c : UInt8) : isDigit c = true → lowerHex c = c := by
+  revert c; apply u8_cases; decide
+
+
+abbrev lowerAll (s : Bytes) : Bytes := s.map lowerHex
+
+theorem lowerAll_digits (p : Bytes) (h : p.all isDigit = true) : lowerAll p = p := by
+  induction p with
+  | nil => rfl
+  | cons c cs ih =>
+    simp only [List.all_cons, Bool.and_eq_true] at h
+    simp only [lowerAll, List.map_cons, lowerHex_digit c h.1]
+    congr 1
+    exact ih h.2
+
+theorem lowerAll_all_isDigit (p : Bytes) : (lowerAll p).all isDigit = p.all isDigit := by
+  induction p with
+  | nil => rfl
+  | cons c cs ih => simp only [lowerAll, List.map_cons, List.all_cons, lowerHex_isDigit] at ih ⊢; rw [ih]
+
+theorem v4Field_lower (p : Bytes) : v4Field (lowerAll p) = v4Field p := by
+  by_cases h : p.all isDigit = true
+  · rw [lowerAll_digits p h]
+  · have h' : (lowerAll p).all isDigit ≠ true := by rw [lowerAll_all_isDigit]; exact h
+    unfold v4Field
+    simp [h, h']
+
+theorem splitOn_lower (sep : UInt8) (hsep : ∀ c, (lowerHex c = sep) = (c = sep)) :
+    ∀ s : Bytes, splitOn sep (lowerAll s) = (splitOn sep s).map lowerAll := by
+  intro s
+  induction s with
+  | nil => rfl
+  | cons c cs ih =>
+    simp only [lowerAll, List.map_cons] at ih ⊢
+    unfold splitOn
+    rw [ih]
+    cases hsp : splitOn sep cs with
+    | nil => rfl
+    | cons p ps =>
+      simp only [List.map_cons, hsep]
+      split <;> rfl
+
+theorem parseIPv4Fields_lower (s : Bytes) : parseIPv4Fields (lowerAll s) = parseIPv4Fields s := by
+  unfold parseIPv4Fields
+  rw [splitOn_lower 0x2e lowerHex_eq_dot, List.map_map]
+  have : v4Field ∘ lowerAll = v4Field := by funext p; exact v4Field_lower p
+  rw [this]
+
+theorem takeWhile_hex_lower (s : Bytes) :
+    (lowerAll s).takeWhile (fun c => (hexVal8? c).isSome) = lowerAll (s.takeWhile (fun c => (hexVal8? c).isSome)) := by
+  induction s with
+  | nil => rfl
+  | cons c cs ih =>
+    simp only [lowerAll, List.map_cons, List.takeWhile_cons, lowerHex_isHex] at ih ⊢
+    split
+    · simp only [List.map_cons, ih]
+    · rfl
+
+theorem dropWhile_hex_lower (s : Bytes) :
+    (lowerAll s).dropWhile (fun c => (hexVal8? c).isSome) = lowerAll (s.dropWhile (fun c => (hexVal8? c).isSome)) := by
+  induction s with
+  | nil => rfl
+  | cons c cs ih =>
+    simp only [lowerAll, List.map_cons, List.dropWhile_cons, lowerHex_isHex] at ih ⊢
+    split
+    · exact ih
+    · simp only [List.map_cons]
+
+theorem foldl_hex_lower (digs : Bytes) (n : Nat) :
+    (lowerAll digs).foldl (fun n c => n * 16 + (hexVal8? c).getD 0) n
+      = digs.foldl (fun n c => n * 16 + (hexVal8? c).getD 0) n := by
+  induction digs generalizing n with
+  | nil => rfl
+  | cons c cs ih => simp only [lowerAll, List.map_cons, List.foldl_cons, lowerHex_hexVal] at ih ⊢; exact ih _
+
+theorem headOpt_lower_dot (s : Bytes) : ((lowerAll s).head? = some 0x2e) = (s.head? = some 0x2e) := by
+  cases s with
+  | nil => rfl
+  | cons c cs => simp only [lowerAll, List.map_cons, List.head?_cons, Option.some.injEq, lowerHex_eq_dot]
+
+theorem v6Loop_lower (fuel : Nat) : ∀ (s ip : Bytes) (ell : Option Nat),
+    v6Loop fuel (lowerAll s) ip ell = v6Loop fuel s ip ell := by
+  induction fuel with
+  | zero => intro s ip ell; rfl
+  | succ fuel ih =>
+    intro s ip ell
+    conv => lhs; unfold v6Loop
+    conv => rhs; unfold v6Loop
+    simp only [takeWhile_hex_lower, dropWhile_hex_lower, foldl_hex_lower, headOpt_lower_dot,
+      parseIPv4Fields_lower, List.length_map, List.isEmpty_map]
+    generalize s.dropWhile (fun c => (hexVal8? c).isSome) = rest
+    split
+    · rfl
+    · split
+      · rfl
+      · split
+        · rfl
+        · cases rest with
+          | nil => rfl
+          | cons c r1 =>
+            simp only [lowerAll, List.map_cons, ne_eq, lowerHex_eq_colon]
+            split
+            · rfl
+            · cases r1 with
+              | nil => rfl
+              | cons c2 r2 =>
+                have h2 := ih r2
+                have h1 := ih (c2 :: r2)
+                simp only [lowerAll, List.map_cons] at h1 h2
+                simp only [List.map_cons, lowerHex_eq_colon, List.isEmpty_map, h1, h2]
+
+theorem lowerHex_eq_slash (c : UInt8) : (lowerHex c = 0x2f) = (c = 0x2f) := by
+  revert c; apply u8_cases; decide
+theorem lowerHex_dtoi_digit (c : UInt8) :
+    (0x30 ≤ lowerHex c ∧ lowerHex c ≤ 0x39) = (0x30 ≤ c ∧ c ≤ 0x39) := by
+  revert c; apply u8_cases; decide
+theorem lowerHex_dtoi_val (c : UInt8) : (0x30 ≤ c ∧ c ≤ 0x39) → lowerHex c = c := by
+  revert c; apply u8_cases; decide
+
+theorem contains_pct_lower (s : Bytes) : (lowerAll s).contains 0x25 = s.contains 0x25 := by
+  induction s with
+  | nil => rfl
+  | cons c cs ih =>
+    simp only [lowerAll, List.map_cons, List.contains_cons] at ih ⊢
+    rw [ih]
+    congr 1
+    rw [Bool.eq_iff_iff]
+    simp only [beq_iff_eq]
+    constructor
+    · intro h; have := (lowerHex_eq_pct c) ▸ h.symm; exact this.symm
+    · intro h; have : lowerHex c = 0x25 := (lowerHex_eq_pct c).symm ▸ h.symm; exact this.symm
+
+theorem takeWhile_pct_lower (s : Bytes) :
+    (lowerAll s).takeWhile (· ≠ 0x25) = lowerAll (s.takeWhile (· ≠ 0x25)) := by
+  induction s with
+  | nil => rfl
+  | cons c cs ih =>
+    simp only [lowerAll, List.map_cons, List.takeWhile_cons, ne_eq, lowerHex_eq_pct] at ih ⊢
+    split
+    · simp only [List.map_cons, ih]
+    · rfl
+
+theorem dropWhile_pct_lower (s : Bytes) :
+    (lowerAll s).dropWhile (· ≠ 0x25) = lowerAll (s.dropWhile (· ≠ 0x25)) := by
+  induction s with
+  | nil => rfl
+  | cons c cs ih =>
+    simp only [lowerAll, List.map_cons, List.dropWhile_cons, ne_eq, lowerHex_eq_pct] at ih ⊢
+    split
+    · exact ih
+    · simp only [List.map_cons]
+
+theorem take2_colon_lower (s : Bytes) :
+    ((lowerAll s).take 2 == [0x3a, 0x3a]) = (s.take 2 == [0x3a, 0x3a]) := by
+  rw [Bool.eq_iff_iff]
+  simp only [beq_iff_eq]
+  match s with
+  | [] => simp
+  | [a] => simp
+  | a :: b :: r => simp [lowerAll, lowerHex_eq_colon]
+
+/-- **Upper-case and lower-case hex digits are the same address** (reference
+    syntax of the colon form). -/
+theorem parseIPv6_lower (input : Bytes) : parseIPv6 (lowerAll input) = parseIPv6 input := by
+  unfold parseIPv6
+  simp only [contains_pct_lower, takeWhile_pct_lower, dropWhile_pct_lower, List.length_map, take2_colon_lower]
+  have hdrop : ∀ x : Bytes, (lowerAll x).drop 2 = lowerAll (x.drop 2) := fun x => by simp [lowerAll]
+  generalize input.takeWhile (· ≠ 0x25) = s
+  by_cases hl : (decide (s.length ≥ 2) && s.take 2 == [0x3a, 0x3a]) = true
+  · simp only [hl, if_true, hdrop, List.isEmpty_map, v6Loop_lower]
+  · have hl' : (decide (s.length ≥ 2) && s.take 2 == [0x3a, 0x3a]) = false := by simpa using hl
+    simp only [hl', Bool.false_and, Bool.false_eq_true, if_false, v6Loop_lower]
+
+theorem findOpt_special_lower (s : Bytes) :
+    (lowerAll s).find? (fun c => c = 0x2e || c = 0x3a || c = 0x25)
+      = (s.find? (fun c => c = 0x2e || c = 0x3a || c = 0x25)) := by
+  induction s with
+  | nil => rfl
+  | cons c cs ih =>
+    simp only [lowerAll, List.map_cons, List.find?_cons, lowerHex_eq_dot, lowerHex_eq_colon, lowerHex_eq_pct] at ih ⊢
+    split
+    · rename_i h
+      have : lowerHex c = c := by
+        simp only [Bool.or_eq_true, decide_eq_true_eq] at h
+        rcases h with (h | h) | h
+        · rw [h]; rfl
+        · rw [h]; rfl
+        · rw [h]; rfl
+      rw [this]
+    · exact ih
+
+theorem netipParseAddr_lower (s : Bytes) : netipParseAddr (lowerAll s) = netipParseAddr s := by
+  unfold netipParseAddr
+  rw [findOpt_special_lower, parseIPv4Fields_lower, parseIPv6_lower]
+
+theorem cutSlash_lower (t : Bytes) :
+    cutSlash (lowerAll t) = (cutSlash t).map fun p => (lowerAll p.1, lowerAll p.2) := by
+  induction t with
+  | nil => rfl
+  | cons c cs ih =>
+    simp only [lowerAll, List.map_cons] at ih ⊢
+    unfold cutSlash
+    simp only [lowerHex_eq_slash]
+    split
+    · rfl
+    · rw [ih]
+      cases cutSlash cs with
+      | none => rfl
+      | some p => rfl
+
+theorem dtoiLoop_lower (m : Bytes) : ∀ n i, dtoiLoop (lowerAll m) n i = dtoiLoop m n i := by
+  induction m with
+  | nil => intro n i; rfl
+  | cons c cs ih =>
+    intro n i
+    simp only [lowerAll, List.map_cons] at ih ⊢
+    unfold dtoiLoop
+    simp only [lowerHex_dtoi_digit]
+    split
+    · rename_i h
+      rw [lowerHex_dtoi_val c h]
+      simp only [ih]
+    · rfl
+
+theorem dtoi_lower (m : Bytes) : dtoi (lowerAll m) = dtoi m := by
+  unfold dtoi; rw [dtoiLoop_lower]
+
+/-- **An entry means the same whatever the case of its hex digits**:
+    `2001:DB8::/32` is `2001:db8::/32`, `::FFFF:1.2.3.4` is `::ffff:1.2.3.4`. -/
+theorem entry_hex_case_irrelevant (t : Bytes) :
+    denote netipParseAddr (lowerAll t) = denote netipParseAddr t := by
+  have hc : denoteCIDR netipParseAddr (lowerAll t) = denoteCIDR netipParseAddr t := by
+    unfold denoteCIDR
+    rw [cutSlash_lower]
+    cases cutSlash t with
+    | none => rfl
+    | some p =>
+      obtain ⟨a, m⟩ := p
+      simp only [Option.map_some, netipParseAddr_lower, dtoi_lower, List.length_map]
+  unfold denote
+  rw [hc, netipParseAddr_lower]
+
+/-- `2001:DB8::AbCd/32` and `2001:db8::abcd/32` -/
+def exUpper : Bytes :=
+  [0x32, 0x30, 0x30, 0x31, 0x3a, 0x44, 0x42, 0x38, 0x3a, 0x3a, 0x41, 0x62, 0x43, 0x64, 0x2f, 0x33, 0x32]
+def exLower : Bytes :=
+  [0x32, 0x30, 0x30, 0x31, 0x3a, 0x64, 0x62, 0x38, 0x3a, 0x3a, 0x61, 0x62, 0x63, 0x64, 0x2f, 0x33, 0x32]
+
+set_option maxRecDepth 100000 in
+example : lowerAll exUpper = exLower
+    ∧ denote netipParseAddr exUpper
+      = some { addr := [0x20, 0x01, 0x0d, 0xb8, 0, 0, 0, 0, 0, 0, 0, 0, 0, 0, 0xab, 0xcd], pfx := some 32 } := by
+  decide
+
+end HexCase
+
+section Reload
+open GaeaVerif.MgrReload GaeaVerif.IPAllowReload
+
+/-! ### reload: the list in force while the configuration changes
+
+  `Model/IPAllowReload.lean` puts the allow-list on top of the reload machine
+  of `Model/MgrReload.lean` (C31: `Rel`, `step_refines`,
+  `reader_sees_complete_generation`).  Structural facts of the source the
+  composition relies on, extracted on every run: -/
+
+/-- `allowips` of a namespace object is assigned once, in `NewNamespace`: the
+    list a connecting client is judged by is immutable. -/
+theorem allowips_written_once :
+    Gen.c35AllowipsWriters = 1 ∧ Gen.c35AllowipsWriterIsNewNamespace = true := by decide
+
+/-- `Session.Handshake` refuses the client with an error when
+    `IsAllowConnect()` is false, before it writes the OK packet. -/
+theorem handshake_checks_allow_list : Gen.c35HandshakeChecksAllowList = true := by decide
+
+/-- util's own `parseAllowIps` (which drops entries that do not parse) is
+    called by nothing. -/
+theorem util_parseAllowIps_unused : Gen.c35UtilParseAllowIpsCallers = 0 := by decide
+
+/-- `parseAllowIps` never panics. -/
+theorem parseAllowIps_ne_panic (pa : Bytes → Option Addr) (hpa : PAwf pa) (l : List Bytes) :
+    parseAllowIps pa l ≠ .panic := by
+  rw [parseAllowIps_eq pa hpa l]
+  cases listed pa l <;> simp
+
+/-- `NewNamespace` rejects a configuration exactly when an entry of its
+    `allowed_ip` is meaningless. -/
+theorem buildable_iff (pa : Bytes → Option Addr) (hpa : PAwf pa) (cfg : Cfg) (v : Nat) :
+    buildable pa cfg v = false ↔
+      ∃ t ∈ cfg v, (trimSpace t).length ≠ 0 ∧ denote pa (trimSpace t) = none := by
+  rw [← unparsable_entry_refuses_list pa hpa (cfg v)]
+  unfold buildable
+  have := parseAllowIps_ne_panic pa hpa (cfg v)
+  cases h : parseAllowIps pa (cfg v) with
+  | ok _ => simp
+  | fail => simp
+  | panic => exact absurd h this
+
+/-- What the property asks for when version `a` is in force (`none`: the
+    namespace does not exist — nobody connects). -/
+def specDecision (pa : Bytes → Option Addr) (cfg : Cfg) (a : Option Nat) (remote : Bytes) : R Bool :=
+  match a with
+  | none => .ok false
+  | some v => parseAllowIps pa (cfg v) >>= fun infos => isAllowConnect pa infos remote
+
+/-- A connecting client is judged by the list of the configuration last
+    committed (or by nothing after a delete). -/
+theorem connect_eq_spec (pa : Bytes → Option Addr) (cfg : Cfg) {m : Manager} {s : Spec} (h : C31.Rel m s)
+    (remote : Bytes) : connect pa cfg m remote = specDecision pa cfg (s.active 0) remote := by
+  unfold connect specDecision
+  rw [(C31.view_eq_active h 0).1]
+  cases s.active 0 <;> rfl
+
+/-- The reference run: configuration operations answer what the manager
+    answers and move the abstract state of C31 (`Spec.step`: a successful
+    prepare records the version, a successful commit activates the version last
+    prepared, a delete removes the namespace, a failed operation changes
+    nothing); every connecting client gets `specDecision` of the version in force. -/
+def refRun (pa : Bytes → Option Addr) (cfg : Cfg) (m : Manager) (s : Spec) : List IPAllowReload.Op → List Ans
+  | [] => []
+  | op :: rest =>
+    match op.mgr pa cfg with
+    | some o =>
+      let r := MgrReload.step m o
+      .out r.2 :: refRun pa cfg r.1 (s.step o r.2) rest
+    | none =>
+      match op with
+      | .conn remote => .dec (specDecision pa cfg (s.active 0) remote) :: refRun pa cfg m s rest
+      | _ => .dec .panic :: refRun pa cfg m s rest
+
+theorem run_eq_refRun (pa : Bytes → Option Addr) (cfg : Cfg) {m : Manager} {s : Spec} (h : C31.Rel m s)
+    (ops : List IPAllowReload.Op) : IPAllowReload.run pa cfg m ops = refRun pa cfg m s ops := by
+  induction ops generalizing m s with
+  | nil => rfl
+  | cons op rest ih =>
+    cases op with
+    | prepare v =>
+      simp only [IPAllowReload.run, IPAllowReload.step, refRun, IPAllowReload.Op.mgr]
+      rw [ih (C31.step_refines h (.prepare 0 v (buildable pa cfg v))).1]
+    | commit =>
+      simp only [IPAllowReload.run, IPAllowReload.step, refRun, IPAllowReload.Op.mgr]
+      rw [ih (C31.step_refines h (.commit 0)).1]
+    | delete =>
+      simp only [IPAllowReload.run, IPAllowReload.step, refRun, IPAllowReload.Op.mgr]
+      rw [ih (C31.step_refines h (.delete 0)).1]
+    | conn remote =>
+      simp only [IPAllowReload.run, IPAllowReload.step, refRun, IPAllowReload.Op.mgr]
+      rw [connect_eq_spec pa cfg h remote, ih h]
+
+/-- **C35 across reloads, every history.**  On a proxy started with any list,
+    after any sequence of prepares (of loadable and of unparsable lists),
+    commits, deletes and connecting clients, every client is judged by the list
+    of the configuration last committed — never by a list that was only
+    prepared, never by a list that failed to parse, and by nothing at all once
+    the namespace is deleted. -/
+theorem reload_history_conn (pa : Bytes → Option Addr) (cfg : Cfg) (ops : List IPAllowReload.Op) :
+    IPAllowReload.run pa cfg (start pa cfg) ops
+      = refRun pa cfg (start pa cfg) (Spec.init (if buildable pa cfg 0 then [(0, 0)] else [])) ops :=
+  run_eq_refRun pa cfg (C31.rel_init _) ops
+
+/-- **A replacement list that does not parse is refused and changes nothing**:
+    the prepare answers the build error and the manager is the one before —
+    in particular the namespace does not become open. -/
+theorem unparsable_prepare_changes_nothing (pa : Bytes → Option Addr) (cfg : Cfg) {m : Manager} {s : Spec}
+    (h : C31.Rel m s) (v : Nat) (hb : buildable pa cfg v = false) :
+    IPAllowReload.step pa cfg m (.prepare v) = (m, .out .errBuild) := by
+  simp [IPAllowReload.step, MgrReload.step, ReloadNamespacePrepare, ReloadNamespacePrepareTrace, hb, h.ns]
+
+/-- A commit after it still has nothing to commit (unless something else was
+    prepared before): the clients keep being judged by the old list. -/
+theorem unparsable_prepare_keeps_decisions (pa : Bytes → Option Addr) (cfg : Cfg) {m : Manager} {s : Spec}
+    (h : C31.Rel m s) (v : Nat) (hb : buildable pa cfg v = false) (remote : Bytes) :
+    connect pa cfg (IPAllowReload.step pa cfg m (.prepare v)).1 remote = connect pa cfg m remote := by
+  rw [unparsable_prepare_changes_nothing pa cfg h v hb]
+
+/-- **Prepare + commit puts exactly the new list in force.** -/
+theorem commit_puts_prepared_list_in_force (pa : Bytes → Option Addr) (cfg : Cfg) {m : Manager} {s : Spec}
+    (h : C31.Rel m s) (v : Nat) (hb : buildable pa cfg v = true) (remote : Bytes) :
+    let m1 := (IPAllowReload.step pa cfg m (.prepare v)).1
+    (IPAllowReload.step pa cfg m1 .commit).2 = .out .ok ∧
+    connect pa cfg m1 remote = connect pa cfg m remote ∧
+    connect pa cfg (IPAllowReload.step pa cfg m1 .commit).1 remote
+      = (parseAllowIps pa (cfg v) >>= fun infos => isAllowConnect pa infos remote) := by
+  simp only [IPAllowReload.step, hb]
+  have hp := C31.prepare_refines h 0 v true
+  have hr := hp.1
+  rw [hp.2] at hr
+  simp only [if_true, Spec.step] at hr
+  have hkeep := (C31.prepare_keeps_view h 0 v true 0).1
+  have hc := C31.commit_refines hr 0
+  have hok : (ReloadNamespaceCommit (ReloadNamespacePrepare m 0 v true).1 0).2 = .ok := by
+    rcases hc.2 with h1 | h1
+    · exfalso
+      have hm : (ReloadNamespacePrepare m 0 v true).1.reloadPrepared = true
+          ∧ (ReloadNamespacePrepare m 0 v true).1.preparedName = 0 := by
+        simp [ReloadNamespacePrepare, ReloadNamespacePrepareTrace, h.ns, h.us]
+      simp [ReloadNamespaceCommit, ReloadNamespaceCommitTrace, hm.1, hm.2] at h1
+      revert h1
+      simp [ReloadNamespacePrepare, ReloadNamespacePrepareTrace, h.ns, h.us, GetNamespace]
+    · exact h1.1
+  obtain ⟨w, hw, hget, _⟩ := C31.commit_activates_last_prepared hr 0 hok
+  have hwv : w = v := by simpa using hw.symm
+  subst hwv
+  refine ⟨by simp only [MgrReload.step]; rw [hok], ?_, ?_⟩
+  · simp only [MgrReload.step, connect, hkeep]
+  · simp only [MgrReload.step, connect, hget]
+
+/-- **Clients connecting while a configuration operation runs** (between any
+    two of its stores, from any reachable state) are judged by the list in
+    force before the operation or by the one in force after it — whole lists,
+    never a mixture, never the empty list of a half-built namespace. -/
+theorem conn_during_reload_old_or_new (pa : Bytes → Option Addr) (cfg : Cfg) {m : Manager} {s : Spec}
+    (h : C31.Rel m s) (op : MgrReload.Op) (remote : Bytes) :
+    ∀ m' ∈ (trace m op).1,
+      connect pa cfg m' remote = connect pa cfg m remote ∨
+      connect pa cfg m' remote = connect pa cfg (MgrReload.step m op).1 remote := by
+  intro m' hm'
+  rcases (C31.reader_sees_complete_generation h op m' hm').2 with h1 | h1
+  · left; simp only [connect, h1 0]
+  · right; simp only [connect, h1 0]
+
+/-- A client both lists agree on gets that answer throughout the reload. -/
+theorem conn_during_reload_agreed (pa : Bytes → Option Addr) (cfg : Cfg) {m : Manager} {s : Spec}
+    (h : C31.Rel m s) (op : MgrReload.Op) (remote : Bytes) (d : R Bool)
+    (hold : connect pa cfg m remote = d) (hnew : connect pa cfg (MgrReload.step m op).1 remote = d) :
+    ∀ m' ∈ (trace m op).1, connect pa cfg m' remote = d := by
+  intro m' hm'
+  rcases conn_during_reload_old_or_new pa cfg h op remote m' hm' with h1 | h1
+  · rw [h1, hold]
+  · rw [h1, hnew]
+
+/-- `10.0.0.0/8`, `010.0.0.1`, `9.9.9.9:1` -/
+def exTenBlock : Bytes := [0x31, 0x30, 0x2e, 0x30, 0x2e, 0x30, 0x2e, 0x30, 0x2f, 0x38]
+def exBadEntry : Bytes := [0x30, 0x31, 0x30, 0x2e, 0x30, 0x2e, 0x30, 0x2e, 0x31]
+def exOutsider : Bytes := [0x39, 0x2e, 0x39, 0x2e, 0x39, 0x2e, 0x39, 0x3a, 0x31]
+/-- Version 0 = `["10.0.0.0/8"]`, version 1 = `["010.0.0.1"]` (does not parse),
+    version 2 = `[]` (open). -/
+def exCfg : Cfg := fun v => if v = 0 then [exTenBlock] else if v = 1 then [exBadEntry] else []
+
+set_option maxRecDepth 100000 in
+/-- Non-vacuity: the outsider 9.9.9.9 is refused, stays refused after the
+    attempt to load the unparsable list and the commit that follows it, is
+    admitted once the empty list is committed, and refused after the delete. -/
+example :
+    IPAllowReload.run netipParseAddr exCfg (start netipParseAddr exCfg)
+      [.conn exOutsider, .prepare 1, .commit, .conn exOutsider, .prepare 2, .conn exOutsider, .commit,
+       .conn exOutsider, .delete, .conn exOutsider]
+    = [.dec (.ok false), .out .errBuild, .out .errNotPrepared, .dec (.ok false), .out .ok, .dec (.ok false),
+       .out .ok, .dec (.ok true), .out .ok, .dec (.ok false)] := by decide
+
+/-! ### util's unused `parseAllowIps` -/
+
+/-- `x` and `10.0.0.0/8,x` -/
+def exUtil1 : Bytes := [0x78]
+def exUtil2 : Bytes := exTenBlock ++ [0x2c, 0x78]
+
+set_option maxRecDepth 100000 in
+/-- **Witness (dead code).**  util's comma-separated `parseAllowIps` drops an
+    entry that does not parse: the non-empty text `x` yields the empty list,
+    which `IsClientIPAllowed` reads as "everyone".  The loader of the proxy
+    (`parseAllowIps` of proxy/server) refuses the same entries; the util
+    function has no caller (`util_parseAllowIps_unused`). -/
+theorem util_parseAllowIps_drops_witness :
+    utilParseAllowIps netipParseAddr exUtil1 = []
+    ∧ isClientIPAllowed (utilParseAllowIps netipParseAddr exUtil1) [9, 9, 9, 9] = .ok true
+    ∧ (utilParseAllowIps netipParseAddr exUtil2).length = 1
+    ∧ parseAllowIps netipParseAddr [exUtil1] = .fail
+    ∧ parseAllowIps netipParseAddr [exTenBlock, exUtil1] = .fail := by decide
+
+end Reload
 
 end GaeaVerif.C35
